@@ -203,3 +203,1921 @@ Proof.
   rewrite notify_cbs_count, CB, subscribe_all_count. simpl.
   rewrite Nat.sub_0_r, NP. apply subscription_match_count.
 Qed.
+
+(* =============================================== decomposition into primitive steps *)
+(* Every operation of the model is a sequence of four kinds of primitive
+   changes of the world; invariants are proved once per primitive. *)
+Inductive prim : world -> world -> Prop :=
+| prim_accept w pi e head : prim w (fst (accept_event w pi e head))
+| prim_procs w pi p procs' :
+    nth_error (w_pools w) pi = Some p ->
+    prim w (upd_pool w pi (mkPool (pl_subs p) (pl_bufsize p) (pl_buffer p) (pl_serial p) procs'))
+| prim_pop w pi p e rest :
+    nth_error (w_pools w) pi = Some p -> pl_buffer p = e :: rest ->
+    prim w (upd_pool w pi (mkPool (pl_subs p) (pl_bufsize p) rest (pl_serial p) (pl_procs p)))
+| prim_newev w e t :
+    ev_lookup (w_events w) e = None ->
+    prim w (mkW (w_pools w) (w_callbacks w) (w_gserial w) (w_events w ++ [mkEI e t None []]) (w_maxint w)).
+
+Inductive prims : world -> world -> Prop :=
+| prims_refl w : prims w w
+| prims_step w1 w2 w3 : prim w1 w2 -> prims w2 w3 -> prims w1 w3.
+
+Lemma prims_trans a b c : prims a b -> prims b c -> prims a c.
+Proof. induction 1; intros K; [exact K | econstructor; eauto]. Qed.
+Lemma prims_one a b : prim a b -> prims a b.
+Proof. intros H. econstructor; [exact H | constructor]. Qed.
+
+Lemma handle_rejected_prims w pi owner e : prims w (fst (handle_rejected w pi owner e)).
+Proof.
+  unfold handle_rejected. destruct (Nat.eqb owner pi); [|constructor].
+  destruct e as [e'|]; [|constructor].
+  pose proof (prim_accept w pi e' true) as P. destruct (accept_event w pi e' true). apply prims_one. exact P.
+Qed.
+
+Lemma notify_cbs_prims t n : forall cbs w, prims w (fst (notify_cbs cbs w t n)).
+Proof.
+  induction cbs as [|[T c] r IH]; intros w; simpl; [constructor|].
+  destruct (subtype_b t T); [|apply IH].
+  assert (P : prims w (fst (match c, n with
+                            | CAccept pi, NEvent e => let '(w', o) := accept_event w pi e false in (w', EOffered pi e :: o)
+                            | CRejected pi, NRejected owner _ e => handle_rejected w pi owner e
+                            | _, _ => (w, [ERaise])
+                            end))).
+  { destruct c as [pi|pi], n as [e|owner i e]; try constructor.
+    - pose proof (prim_accept w pi e false) as P. destruct (accept_event w pi e false). apply prims_one. exact P.
+    - apply handle_rejected_prims. }
+  destruct (match c, n with
+            | CAccept pi, NEvent e => let '(w', o) := accept_event w pi e false in (w', EOffered pi e :: o)
+            | CRejected pi, NRejected owner _ e => handle_rejected w pi owner e
+            | _, _ => (w, [ERaise])
+            end) as [w1 o1]. simpl in P.
+  specialize (IH w1). destruct (notify_cbs r w1 t n) as [w2 o2]. simpl in *.
+  eapply prims_trans; eassumption.
+Qed.
+
+Lemma notify_prims w n : prims w (fst (notify w n)).
+Proof. unfold notify. destruct (note_type w n); [apply notify_cbs_prims | constructor]. Qed.
+
+Lemma emit_prims w e t : prims w (fst (emit w e t)).
+Proof.
+  unfold emit. destruct (ev_lookup (w_events w) e) eqn:L; [constructor|].
+  eapply prims_step; [apply (prim_newev w e t L)|]. apply notify_prims.
+Qed.
+
+Lemma set_proc_prims w pi i q : prims w (set_proc w pi i q).
+Proof.
+  unfold set_proc. destruct (nth_error (w_pools w) pi) as [p|] eqn:N; [|constructor].
+  apply prims_one. apply prim_procs. exact N.
+Qed.
+
+Section Steps.
+Variable h : handler.
+Variable maxdig : Z.
+
+Lemma route_outs_prims pi i : forall o w, prims w (fst (route_outs w pi i o)).
+Proof.
+  induction o as [|x r IH]; intros w; simpl; [constructor|].
+  assert (P : prims w (fst (match x with
+                            | ORejected e => let '(w', o') := notify w (NRejected pi i e) in (w', ERejected pi i e :: o')
+                            | OProcessed (Some e) => (w, [EAcked pi i e])
+                            | OCrash => (w, [ERaise])
+                            | _ => (w, [])
+                            end))).
+  { destruct x as [n|e|e|]; try constructor.
+    - pose proof (notify_prims w (NRejected pi i e)) as P. destruct (notify w (NRejected pi i e)). exact P.
+    - destruct e; constructor. }
+  destruct (match x with
+            | ORejected e => let '(w', o') := notify w (NRejected pi i e) in (w', ERejected pi i e :: o')
+            | OProcessed (Some e) => (w, [EAcked pi i e])
+            | OCrash => (w, [ERaise])
+            | _ => (w, [])
+            end) as [w1 o1]. simpl in P.
+  specialize (IH w1). destruct (route_outs w1 pi i r) as [w2 o2]. simpl in *.
+  eapply prims_trans; eassumption.
+Qed.
+
+Lemma dispatch_event_prims w pi e ws : prims w (fst (fst (dispatch_event w pi e ws))).
+Proof.
+  unfold dispatch_event. destruct (nth_error (w_pools w) pi) as [p|] eqn:N; [|constructor].
+  destruct (ev_lookup (w_events w) e) as [x|]; [|constructor].
+  destruct (ei_serial x); [|constructor]. destruct (ps_lookup (ei_pserials x) pi); [|constructor].
+  destruct (dispatch_from 0 (pl_procs p) e _ ws) as [[procs' o] ok]. simpl.
+  apply prims_one. apply prim_procs. exact N.
+Qed.
+
+Lemma dispatch_loop_prims pi : forall f w wss, prims w (fst (dispatch_loop f w pi wss)).
+Proof.
+  induction f as [|f IH]; intros w wss; simpl; [constructor|].
+  destruct (nth_error (w_pools w) pi) as [p|] eqn:N; [|constructor].
+  destruct (pl_buffer p) as [|e rest] eqn:B; [constructor|].
+  set (w0 := upd_pool w pi (mkPool (pl_subs p) (pl_bufsize p) rest (pl_serial p) (pl_procs p))).
+  assert (P0 : prims w w0) by (apply prims_one; eapply prim_pop; eassumption).
+  pose proof (dispatch_event_prims w0 pi e (hd [] wss)) as P1.
+  destruct (dispatch_event w0 pi e (hd [] wss)) as [[w1 o1] r]. simpl in P1.
+  destruct r as [[|]|].
+  - specialize (IH w1 (tl wss)). destruct (dispatch_loop f w1 pi (tl wss)) as [w2 o2]. simpl in *.
+    eapply prims_trans; [exact P0|]. eapply prims_trans; eassumption.
+  - pose proof (prim_accept w1 pi e true) as P2. destruct (accept_event w1 pi e true) as [w2 o2]. simpl in *.
+    eapply prims_trans; [exact P0|]. eapply prims_trans; [exact P1|]. apply prims_one. exact P2.
+  - simpl. eapply prims_trans; eassumption.
+Qed.
+
+Lemma dispatch_prims w pi wss : prims w (fst (dispatch w pi wss)).
+Proof. unfold dispatch. destruct (nth_error (w_pools w) pi); [apply dispatch_loop_prims | constructor]. Qed.
+
+Lemma seq_prims w (r : world * list weff) f :
+  prims w (fst r) -> (forall w', prims w' (fst (f w'))) -> prims w (fst (seq r f)).
+Proof.
+  intros A B. unfold seq. destruct r as [w1 o1]. specialize (B w1). destruct (f w1) as [w2 o2].
+  simpl in *. eapply prims_trans; eassumption.
+Qed.
+
+Lemma wstep_prims w op : prims w (fst (wstep h maxdig w op)).
+Proof.
+  destruct op as [e t|pi i data|pi i wr|pi i pid e1|pi i e1|pi i e1|pi i last wr e1 e2|pi wss|pi wss]; unfold wstep.
+  - apply emit_prims.
+  - destruct (get_proc w pi i) as [[p q]|]; [|constructor].
+    destruct (l_closed (p_l q)); [constructor|].
+    destruct (read_event h maxdig (p_l q) data) as [l' o].
+    eapply prims_trans; [apply set_proc_prims | apply route_outs_prims].
+  - destruct (get_proc w pi i) as [[p q]|]; [|constructor].
+    destruct (write_event q wr) as [q' r]. destruct r; simpl; apply set_proc_prims.
+  - destruct (get_proc w pi i) as [[p q]|]; [|constructor].
+    destruct (proc_step h maxdig i q (PSpawn pid)) as [q' o].
+    destruct o as [|x o]; [|destruct x; try constructor];
+      (pose proof (emit_prims w e1 T_ProcessStateStartingEvent) as P;
+       destruct (emit w e1 T_ProcessStateStartingEvent) as [w1 o1]; simpl in *;
+       eapply prims_trans; [exact P | apply set_proc_prims]).
+  - destruct (get_proc w pi i) as [[p q]|]; [|constructor].
+    destruct (proc_step h maxdig i q PRunning) as [q' o].
+    destruct o as [|x o]; [|destruct x; try constructor];
+      (eapply prims_trans; [apply set_proc_prims | apply emit_prims]).
+  - destruct (get_proc w pi i) as [[p q]|]; [|constructor].
+    destruct (proc_step h maxdig i q PStop) as [q' o].
+    destruct o as [|x o]; [|destruct x; try constructor];
+      (eapply prims_trans; [apply set_proc_prims | apply emit_prims]).
+  - destruct (get_proc w pi i) as [[p q]|]; [|constructor].
+    match goal with |- context [if negb ?g then _ else _] => destruct g end; simpl; [|constructor].
+    destruct (if l_closed (p_l q) then (p_l q, []) else read_event h maxdig (p_l q) last) as [l1 o1].
+    pose proof (route_outs_prims pi i o1 (set_proc w pi i (set_l q l1))) as P1.
+    destruct (route_outs (set_proc w pi i (set_l q l1)) pi i o1) as [w1 f1]. simpl in P1.
+    assert (P01 : prims w w1) by (eapply prims_trans; [apply set_proc_prims | exact P1]).
+    destruct (write_event (set_l q l1) wr) as [q2 r].
+    destruct r; simpl; try (eapply prims_trans; [exact P01 | apply set_proc_prims]).
+    + (* FOk *)
+      set (w2 := set_proc w1 pi i q2).
+      assert (P2 : prims w w2) by (eapply prims_trans; [exact P01 | apply set_proc_prims]).
+      assert (P3 : prims w2 (fst (if p_killing q then emit w2 e1 T_ProcessStateStoppedEvent
+                                  else if pstate_eqb (p_state q) PS_STARTING
+                                       then seq (emit w2 e1 T_ProcessStateRunningEvent)
+                                                (fun w' => emit w' e2 T_ProcessStateExitedEvent)
+                                       else emit w2 e2 T_ProcessStateExitedEvent))).
+      { destruct (p_killing q); [apply emit_prims|].
+        destruct (pstate_eqb (p_state q) PS_STARTING); [|apply emit_prims].
+        apply seq_prims; [apply emit_prims | intros; apply emit_prims]. }
+      destruct (if p_killing q then emit w2 e1 T_ProcessStateStoppedEvent
+                else if pstate_eqb (p_state q) PS_STARTING
+                     then seq (emit w2 e1 T_ProcessStateRunningEvent)
+                              (fun w' => emit w' e2 T_ProcessStateExitedEvent)
+                     else emit w2 e2 T_ProcessStateExitedEvent) as [w3 f3]. simpl in P3.
+      match goal with |- context [set_proc w3 pi i ?q3] => set (w4 := set_proc w3 pi i q3) end.
+      assert (P4 : prims w w4).
+      { eapply prims_trans; [exact P2|]. eapply prims_trans; [exact P3 | apply set_proc_prims]. }
+      destruct (l_event (p_l q2)) as [e|]; [|exact P4].
+      pose proof (notify_prims w4 (NRejected pi i (Some e))) as P5.
+      destruct (notify w4 (NRejected pi i (Some e))) as [w5 f5]. simpl in *.
+      eapply prims_trans; eassumption.
+    + (* FEpipe: same continuation *)
+      set (w2 := set_proc w1 pi i q2).
+      assert (P2 : prims w w2) by (eapply prims_trans; [exact P01 | apply set_proc_prims]).
+      assert (P3 : prims w2 (fst (if p_killing q then emit w2 e1 T_ProcessStateStoppedEvent
+                                  else if pstate_eqb (p_state q) PS_STARTING
+                                       then seq (emit w2 e1 T_ProcessStateRunningEvent)
+                                                (fun w' => emit w' e2 T_ProcessStateExitedEvent)
+                                       else emit w2 e2 T_ProcessStateExitedEvent))).
+      { destruct (p_killing q); [apply emit_prims|].
+        destruct (pstate_eqb (p_state q) PS_STARTING); [|apply emit_prims].
+        apply seq_prims; [apply emit_prims | intros; apply emit_prims]. }
+      destruct (if p_killing q then emit w2 e1 T_ProcessStateStoppedEvent
+                else if pstate_eqb (p_state q) PS_STARTING
+                     then seq (emit w2 e1 T_ProcessStateRunningEvent)
+                              (fun w' => emit w' e2 T_ProcessStateExitedEvent)
+                     else emit w2 e2 T_ProcessStateExitedEvent) as [w3 f3]. simpl in P3.
+      match goal with |- context [set_proc w3 pi i ?q3] => set (w4 := set_proc w3 pi i q3) end.
+      assert (P4 : prims w w4).
+      { eapply prims_trans; [exact P2|]. eapply prims_trans; [exact P3 | apply set_proc_prims]. }
+      destruct (l_event (p_l q2)) as [e|]; [|exact P4].
+      pose proof (notify_prims w4 (NRejected pi i (Some e))) as P5.
+      destruct (notify w4 (NRejected pi i (Some e))) as [w5 f5]. simpl in *.
+      eapply prims_trans; eassumption.
+  - apply dispatch_prims.
+  - destruct (nth_error (w_pools w) pi) as [p|]; [|constructor].
+    destruct (dispatch_capable p); [apply dispatch_prims | constructor].
+Qed.
+
+Lemma wrun_prims : forall ops w, prims w (fst (wrun h maxdig w ops)).
+Proof.
+  induction ops as [|op r IH]; intros w; simpl; [constructor|].
+  pose proof (wstep_prims w op) as P. destruct (wstep h maxdig w op) as [w1 o1].
+  specialize (IH w1). destruct (wrun h maxdig w1 r) as [w2 o2]. simpl in *.
+  eapply prims_trans; eassumption.
+Qed.
+
+End Steps.
+
+(* =============================================== invariants *)
+Lemma prims_ind_inv (I : world -> Prop) :
+  (forall w w', prim w w' -> I w -> I w') -> forall w w', prims w w' -> I w -> I w'.
+Proof. intros Hp w w' P. induction P; intros K; [exact K | apply IHP; eapply Hp; eassumption]. Qed.
+
+Lemma map_upd {A B} (f : A -> B) l i x y :
+  nth_error l i = Some y -> f x = f y -> map f (upd l i x) = map f l.
+Proof.
+  revert i; induction l as [|a l IH]; intros i N E; destruct i; simpl in *; try discriminate.
+  - inversion N; subst. rewrite E. reflexivity.
+  - rewrite (IH i N E). reflexivity.
+Qed.
+
+(* what accept_event does to the pool it is called on *)
+Lemma accept_event_shape w pi e head :
+  (fst (accept_event w pi e head) = w) \/
+  exists p x buf' ser gs tbl,
+    nth_error (w_pools w) pi = Some p /\ ev_lookup (w_events w) e = Some x /\
+    fst (accept_event w pi e head) =
+      mkW (upd (w_pools w) pi (mkPool (pl_subs p) (pl_bufsize p) buf' ser (pl_procs p)))
+          (w_callbacks w) gs tbl (w_maxint w) /\
+    let kept := if pl_bufsize p <=? Z.of_nat (length (pl_buffer p)) then tl (pl_buffer p) else pl_buffer p in
+    buf' = (if head then e :: kept else kept ++ [e]).
+Proof.
+  unfold accept_event. destruct (nth_error (w_pools w) pi) as [p|] eqn:N; [|left; reflexivity].
+  destruct (ev_lookup (w_events w) e) as [x|] eqn:L; [|left; reflexivity].
+  right. exists p, x.
+  destruct (ei_serial x); destruct (ps_lookup (ei_pserials x) pi);
+    destruct (pl_bufsize p <=? Z.of_nat (length (pl_buffer p))); destruct (pl_buffer p);
+    simpl; do 4 eexists; repeat split; reflexivity.
+Qed.
+
+(* ---- the static part of a world never changes *)
+Definition static (w : world) :=
+  (w_callbacks w, map pl_subs (w_pools w), map pl_bufsize (w_pools w), w_maxint w).
+
+Lemma prim_static w w' : prim w w' -> static w' = static w.
+Proof.
+  intros P. destruct P as [w pi e head|w pi p procs' N|w pi p e rest N B|w e t FR].
+  - destruct (accept_event_shape w pi e head) as [E|[p [x [buf' [ser [gs [tbl [N [L [E _]]]]]]]]]];
+      rewrite E; [reflexivity|].
+    unfold static; simpl. rewrite (map_upd pl_subs _ _ _ p N) by reflexivity. rewrite (map_upd pl_bufsize _ _ _ p N) by reflexivity. reflexivity.
+  - unfold static, upd_pool; simpl.
+    rewrite (map_upd pl_subs _ _ _ p N) by reflexivity. rewrite (map_upd pl_bufsize _ _ _ p N) by reflexivity. reflexivity.
+  - unfold static, upd_pool; simpl.
+    rewrite (map_upd pl_subs _ _ _ p N) by reflexivity. rewrite (map_upd pl_bufsize _ _ _ p N) by reflexivity. reflexivity.
+  - reflexivity.
+Qed.
+
+Lemma prims_static w w' : prims w w' -> static w' = static w.
+Proof. induction 1 as [|a b c P _ IH]; [reflexivity | rewrite IH; apply prim_static; exact P]. Qed.
+
+Lemma subscribe_all_ext : forall ps ps' cbs k,
+  map pl_subs ps = map pl_subs ps' -> subscribe_all cbs k ps = subscribe_all cbs k ps'.
+Proof.
+  induction ps as [|p ps IH]; intros ps' cbs k E; destruct ps' as [|p' ps']; simpl in *; try discriminate; [reflexivity|].
+  inversion E as [[E1 E2]]. unfold subscribe_pool. rewrite E1. apply IH. exact E2.
+Qed.
+
+Definition callbacks_ok (w : world) : Prop := w_callbacks w = subscribe_all [] 0 (w_pools w).
+
+Lemma callbacks_ok_prims w w' : prims w w' -> callbacks_ok w -> callbacks_ok w'.
+Proof.
+  intros P C. pose proof (prims_static w w' P) as S. unfold static in S. inversion S as [[S1 S2 S3 S4]].
+  unfold callbacks_ok in *. rewrite S1, C. apply subscribe_all_ext. symmetry. exact S2.
+Qed.
+
+Lemma callbacks_ok_new pools maxint gs : callbacks_ok (new_world pools maxint gs).
+Proof. reflexivity. Qed.
+
+(* ---- the buffer bound *)
+Definition pool_bound (p : pool) : Prop := Z.of_nat (length (pl_buffer p)) <= Z.max 1 (pl_bufsize p).
+Definition bound (w : world) : Prop := Forall pool_bound (w_pools w).
+
+Lemma prim_bound w w' : prim w w' -> bound w -> bound w'.
+Proof.
+  unfold bound. intros P F. destruct P as [w pi e head|w pi p procs' N|w pi p e rest N B|w e t FR].
+  - destruct (accept_event_shape w pi e head) as [E|[p [x [buf' [ser [gs [tbl [N [L [E Bf]]]]]]]]]];
+      rewrite E; [exact F|]. simpl.
+    apply Forall_upd; [exact F|].
+    assert (Pb : pool_bound p) by (rewrite Forall_forall in F; apply F; eapply nth_error_In; exact N).
+    unfold pool_bound in *. simpl. subst buf'.
+    destruct (pl_bufsize p <=? Z.of_nat (length (pl_buffer p))) eqn:Ov.
+    + destruct (pl_buffer p) as [|d rest]; destruct head; simpl in *; rewrite ?app_length; simpl; lia.
+    + destruct head; simpl; rewrite ?app_length; simpl; lia.
+  - simpl. apply Forall_upd; [exact F|].
+    assert (Pb : pool_bound p) by (rewrite Forall_forall in F; apply F; eapply nth_error_In; exact N).
+    exact Pb.
+  - simpl. apply Forall_upd; [exact F|].
+    assert (Pb : pool_bound p) by (rewrite Forall_forall in F; apply F; eapply nth_error_In; exact N).
+    unfold pool_bound in *. simpl. rewrite B in Pb. simpl in Pb. lia.
+  - exact F.
+Qed.
+
+Lemma bound_new pools maxint gs :
+  Forall (fun p => pl_buffer p = []) pools -> bound (new_world pools maxint gs).
+Proof.
+  unfold bound. simpl. intros F. induction F as [|p l E F IH]; constructor; [|exact IH].
+  unfold pool_bound. rewrite E. simpl. lia.
+Qed.
+
+Section Histories.
+Variable h : handler.
+Variable maxdig : Z.
+
+(* at every point of every history: the subscription table is the one the
+   pools registered, so `routing` applies to every emitted event *)
+Theorem routing_always pools maxint gs ops e t pi p :
+  let w := fst (wrun h maxdig (new_world pools maxint gs) ops) in
+  nth_error (w_pools w) pi = Some p ->
+  ev_lookup (w_events w) e = None ->
+  offered_count pi e (snd (emit w e t)) =
+  if existsb (fun T => subtype_b t T) (pl_subs p) then 1%nat else 0%nat.
+Proof.
+  intros w N F. apply routing; [|exact N|exact F].
+  eapply callbacks_ok_prims; [apply wrun_prims | apply callbacks_ok_new].
+Qed.
+
+(* the configured subscriptions and buffer sizes are those of the initial pools *)
+Theorem static_always pools maxint gs ops :
+  static (fst (wrun h maxdig (new_world pools maxint gs) ops)) = static (new_world pools maxint gs).
+Proof. apply prims_static. apply wrun_prims. Qed.
+
+(* a pool never holds more than max(1, buffer_size) undelivered events *)
+Theorem bound_always pools maxint gs ops :
+  Forall (fun p => pl_buffer p = []) pools ->
+  bound (fst (wrun h maxdig (new_world pools maxint gs) ops)).
+Proof.
+  intros F. eapply (prims_ind_inv bound prim_bound); [apply wrun_prims | apply bound_new; exact F].
+Qed.
+
+End Histories.
+
+(* =============================================== overflow: only the head, with a log effect *)
+Theorem accept_event_overflow w pi e head p x :
+  nth_error (w_pools w) pi = Some p -> ev_lookup (w_events w) e = Some x ->
+  let '(w', o) := accept_event w pi e head in
+  exists p', nth_error (w_pools w') pi = Some p' /\
+    (if pl_bufsize p <=? Z.of_nat (length (pl_buffer p)) then
+       match pl_buffer p with
+       | d :: rest => o = [EDiscard pi d] /\ pl_buffer p' = (if head then e :: rest else rest ++ [e])
+       | [] => o = [] /\ pl_buffer p' = [e]
+       end
+     else o = [] /\ pl_buffer p' = (if head then e :: pl_buffer p else pl_buffer p ++ [e])).
+Proof.
+  intros N L. unfold accept_event. rewrite N, L.
+  destruct (ei_serial x); destruct (ps_lookup (ei_pserials x) pi);
+    destruct (pl_bufsize p <=? Z.of_nat (length (pl_buffer p))); destruct (pl_buffer p) as [|d rest];
+    simpl; eexists; (split; [eapply upd_same; exact N|]); simpl; destruct head; auto.
+Qed.
+
+(* =============================================== a rejection concerns the owner's pool only *)
+Lemma accept_event_other w pi e head pj :
+  pj <> pi -> nth_error (w_pools (fst (accept_event w pi e head))) pj = nth_error (w_pools w) pj.
+Proof.
+  intros NE. destruct (accept_event_shape w pi e head) as [E|[p [x [buf' [ser [gs [tbl [N [L [E _]]]]]]]]]];
+    rewrite E; [reflexivity|]. simpl. apply upd_other. congruence.
+Qed.
+
+Lemma handle_rejected_other w q owner e pj :
+  pj <> owner -> nth_error (w_pools (fst (handle_rejected w q owner e))) pj = nth_error (w_pools w) pj.
+Proof.
+  intros NE. unfold handle_rejected. destruct (Nat.eqb owner q) eqn:E; [|reflexivity].
+  apply Nat.eqb_eq in E. subst q. destruct e as [e'|]; [|reflexivity].
+  pose proof (accept_event_other w owner e' true pj NE) as A.
+  destruct (accept_event w owner e' true). exact A.
+Qed.
+
+Definition is_rebuffered (pi : nat) (e : ev) (x : weff) : bool :=
+  match x with ERebuffered q f => Nat.eqb q pi && (f =? e) | _ => false end.
+Definition rebuffered_count pi e (o : list weff) : nat := length (filter (is_rebuffered pi e) o).
+Definition rebuffered_elsewhere (pi : nat) (o : list weff) : bool :=
+  existsb (fun x => match x with ERebuffered q _ => negb (Nat.eqb q pi) | _ => false end) o.
+
+Lemma accept_event_no_rebuffer w pi e head :
+  forall x, In x (snd (accept_event w pi e head)) -> match x with ERebuffered _ _ => False | _ => True end.
+Proof.
+  unfold accept_event. destruct (nth_error (w_pools w) pi) as [p|]; [|simpl; intros x [<-|[]]; exact I].
+  destruct (ev_lookup (w_events w) e) as [y|]; [|simpl; intros x [<-|[]]; exact I].
+  destruct (ei_serial y); destruct (ps_lookup (ei_pserials y) pi);
+    destruct (pl_bufsize p <=? Z.of_nat (length (pl_buffer p))); destruct (pl_buffer p);
+    simpl; intros x H; repeat (destruct H as [<-|H]; [exact I|]); destruct H.
+Qed.
+
+(* whatever the subscription table contains: an EventRejectedEvent for a
+   listener of pool `owner` changes no other pool and is re-buffered by no
+   other pool *)
+Theorem reject_isolated owner i e : forall cbs w,
+  let '(w', o) := notify_cbs cbs w T_EventRejectedEvent (NRejected owner i e) in
+  (forall pj, pj <> owner -> nth_error (w_pools w') pj = nth_error (w_pools w) pj) /\
+  rebuffered_elsewhere owner o = false.
+Proof.
+  induction cbs as [|[T c] r IH]; intros w; simpl; [split; [reflexivity | reflexivity]|].
+  destruct (subtype_b T_EventRejectedEvent T); [|apply IH].
+  destruct c as [q|q].
+  - specialize (IH w). destruct (notify_cbs r w T_EventRejectedEvent (NRejected owner i e)) as [w2 o2].
+    destruct IH as [A B]. split; [exact A|]. simpl. exact B.
+  - pose proof (handle_rejected_other w q owner e) as HO.
+    assert (HR : rebuffered_elsewhere owner (snd (handle_rejected w q owner e)) = false).
+    { unfold handle_rejected. destruct (Nat.eqb owner q) eqn:E; [|reflexivity].
+      apply Nat.eqb_eq in E. subst q. destruct e as [e'|]; [|reflexivity].
+      pose proof (accept_event_no_rebuffer w owner e' true) as NR.
+      destruct (accept_event w owner e' true) as [w' o']. simpl in *.
+      rewrite Nat.eqb_refl. simpl.
+      apply not_true_is_false. intros K. apply existsb_exists in K. destruct K as [x [Ix Hx]].
+      specialize (NR x Ix). destruct x; try discriminate. contradiction. }
+    destruct (handle_rejected w q owner e) as [w1 o1]. simpl in HO, HR.
+    specialize (IH w1). destruct (notify_cbs r w1 T_EventRejectedEvent (NRejected owner i e)) as [w2 o2].
+    destruct IH as [A B]. split.
+    + intros pj NE. rewrite (A pj NE). apply HO. exact NE.
+    + unfold rebuffered_elsewhere in *. rewrite existsb_app, HR, B. reflexivity.
+Qed.
+
+(* the owner re-inserts the event at the head of its queue *)
+Theorem reject_to_head w pi e p x :
+  nth_error (w_pools w) pi = Some p -> ev_lookup (w_events w) e = Some x ->
+  let '(w', o) := handle_rejected w pi pi (Some e) in
+  exists p', nth_error (w_pools w') pi = Some p' /\ hd_error (pl_buffer p') = Some e /\
+             rebuffered_count pi e o = 1%nat.
+Proof.
+  intros N L. unfold handle_rejected. rewrite Nat.eqb_refl.
+  pose proof (accept_event_overflow w pi e true p x N L) as A.
+  pose proof (accept_event_no_rebuffer w pi e true) as NR.
+  destruct (accept_event w pi e true) as [w' o]. destruct A as [p' [N' B]].
+  exists p'. split; [exact N'|]. split.
+  - destruct (pl_bufsize p <=? Z.of_nat (length (pl_buffer p))); [destruct (pl_buffer p)|];
+      destruct B as [_ B]; rewrite B; reflexivity.
+  - unfold rebuffered_count. simpl. rewrite Nat.eqb_refl, Z.eqb_refl. simpl. f_equal.
+    simpl in NR. clear -NR. induction o as [|y o IH]; [reflexivity|]. simpl.
+    assert (Hy := NR y (or_introl eq_refl)). destruct y; simpl; try (apply IH; intros z Hz; apply NR; right; exact Hz).
+    contradiction.
+Qed.
+
+(* =============================================== serials *)
+(* new_serial counts 0, 1, 2, ... and wraps after maxint *)
+Lemma new_serial_next maxint cur : cur <> maxint -> new_serial maxint cur = cur + 1.
+Proof. intros H. unfold new_serial. replace (cur =? maxint) with false by lia. reflexivity. Qed.
+Lemma new_serial_wrap maxint : new_serial maxint maxint = 0.
+Proof. unfold new_serial. rewrite Z.eqb_refl. reflexivity. Qed.
+
+Definition serials (tbl : list evinfo) : list Z :=
+  flat_map (fun x => match ei_serial x with Some s => [s] | None => [] end) tbl.
+
+(* While at most maxint+1 events have received a serial (counting from a fresh
+   GlobalSerial), the serials handed out are exactly 0 .. n-1: all different. *)
+Definition serial_inv (w : world) : Prop :=
+  NoDup (map ei_id (w_events w)) /\
+  (Z.of_nat (length (serials (w_events w))) <= w_maxint w + 1 ->
+   w_gserial w = Z.of_nat (length (serials (w_events w))) - 1 /\
+   NoDup (serials (w_events w)) /\
+   forall s, In s (serials (w_events w)) -> 0 <= s <= w_gserial w).
+
+Lemma serials_app a b : serials (a ++ b) = serials a ++ serials b.
+Proof. unfold serials. apply flat_map_app. Qed.
+
+Lemma ev_lookup_In tbl e x : ev_lookup tbl e = Some x -> In x tbl /\ ei_id x = e.
+Proof.
+  induction tbl as [|y tbl IH]; simpl; [discriminate|].
+  destruct (ei_id y =? e) eqn:E; intros H.
+  - inversion H; subst. split; [left; reflexivity | lia].
+  - destruct (IH H). split; [right; assumption | assumption].
+Qed.
+
+Lemma ev_update_ids tbl x : map ei_id (ev_update tbl x) = map ei_id tbl.
+Proof.
+  induction tbl as [|y tbl IH]; simpl; [reflexivity|].
+  destruct (ei_id y =? ei_id x) eqn:E; simpl; [f_equal; lia | rewrite IH; reflexivity].
+Qed.
+
+(* updating the entry of an event that already has serial s with the same serial *)
+Lemma ev_update_serials_same tbl x x' s :
+  ev_lookup tbl (ei_id x') = Some x -> ei_serial x = Some s -> ei_serial x' = Some s ->
+  serials (ev_update tbl x') = serials tbl.
+Proof.
+  induction tbl as [|y tbl IH]; simpl; [discriminate|].
+  destruct (ei_id y =? ei_id x') eqn:E; intros L S S'.
+  - inversion L; subst. unfold serials. simpl. rewrite S, S'. reflexivity.
+  - unfold serials in *. simpl. rewrite (IH L S S'). reflexivity.
+Qed.
+
+(* giving a serial to an event that had none: one more serial, somewhere in the list *)
+Lemma ev_update_serials_new tbl x x' s :
+  NoDup (map ei_id tbl) ->
+  ev_lookup tbl (ei_id x') = Some x -> ei_serial x = None -> ei_serial x' = Some s ->
+  exists a b, serials tbl = a ++ b /\ serials (ev_update tbl x') = a ++ s :: b.
+Proof.
+  induction tbl as [|y tbl IH]; simpl; [discriminate|].
+  intros ND. inversion ND as [|? ? NI ND']; subst.
+  destruct (ei_id y =? ei_id x') eqn:E; intros L S S'.
+  - inversion L; subst. exists [], (serials tbl). unfold serials. simpl. rewrite S, S'. split; reflexivity.
+  - destruct (IH ND' L S S') as [a [b [A B]]].
+    exists ((match ei_serial y with Some s0 => [s0] | None => [] end) ++ a), b.
+    unfold serials in *. simpl. rewrite A, B, <- !app_assoc. split; reflexivity.
+Qed.
+
+Lemma prim_serial_inv w w' : prim w w' -> serial_inv w -> serial_inv w'.
+Proof.
+  intros P [ND I]. destruct P as [w pi e head|w pi p procs' N|w pi p e rest N B|w e t FR].
+  - unfold accept_event. destruct (nth_error (w_pools w) pi) as [p|] eqn:N; [|split; assumption].
+    destruct (ev_lookup (w_events w) e) as [x|] eqn:L; [|split; assumption].
+    destruct (ev_lookup_In _ _ _ L) as [_ Idx].
+    destruct (ei_serial x) as [s|] eqn:S.
+    + (* the event keeps its serial *)
+      assert (E : forall pss, serials (ev_update (w_events w) (mkEI (ei_id x) (ei_type x) (Some s) pss)) = serials (w_events w)).
+      { intros pss. eapply ev_update_serials_same; [simpl; rewrite Idx; exact L | exact S | reflexivity]. }
+      destruct (ps_lookup (ei_pserials x) pi);
+        destruct (pl_bufsize p <=? Z.of_nat (length (pl_buffer p))); destruct (pl_buffer p);
+        unfold serial_inv; simpl; rewrite ev_update_ids, E; (split; [exact ND | exact I]).
+    + (* a new serial *)
+      set (s := new_serial (w_maxint w) (w_gserial w)).
+      assert (E : forall pss, exists a b, serials (w_events w) = a ++ b /\
+                  serials (ev_update (w_events w) (mkEI (ei_id x) (ei_type x) (Some s) pss)) = a ++ s :: b).
+      { intros pss. eapply ev_update_serials_new; [exact ND | simpl; rewrite Idx; exact L | exact S | reflexivity]. }
+      assert (G : forall pss, serial_inv
+                    (mkW (w_pools w) (w_callbacks w) s
+                         (ev_update (w_events w) (mkEI (ei_id x) (ei_type x) (Some s) pss)) (w_maxint w)) ).
+      { intros pss. destruct (E pss) as [a [b [A B']]]. unfold serial_inv; simpl.
+        rewrite ev_update_ids. split; [exact ND|]. rewrite B'. intros Len.
+        rewrite app_length in Len. simpl in Len.
+        assert (Len0 : Z.of_nat (length (serials (w_events w))) <= w_maxint w + 1).
+        { rewrite A, app_length. lia. }
+        destruct (I Len0) as [G1 [G2 G3]]. rewrite A in G1, G2, G3. rewrite app_length in G1.
+        assert (Hs : s = w_gserial w + 1) by (apply new_serial_next; lia).
+        split; [rewrite app_length; simpl; lia|]. split.
+        - apply (NoDup_Add (Add_app s a b)). split; [exact G2|]. intros K. specialize (G3 s K). lia.
+        - intros s0 K. apply in_app_or in K. destruct K as [K|[K|K]].
+          + specialize (G3 s0 (in_or_app _ _ _ (or_introl K))). lia.
+          + subst s0. lia.
+          + specialize (G3 s0 (in_or_app _ _ _ (or_intror K))). lia. }
+      destruct (ps_lookup (ei_pserials x) pi);
+        destruct (pl_bufsize p <=? Z.of_nat (length (pl_buffer p))); destruct (pl_buffer p);
+        simpl; match goal with |- serial_inv (mkW _ _ _ (ev_update _ (mkEI _ _ _ ?pss)) _) =>
+                 destruct (G pss) as [G1 G2]; split; [exact G1 | exact G2] end.
+  - split; assumption.
+  - split; assumption.
+  - (* a new event object: fresh identifier, no serial yet *)
+    unfold serial_inv in *. simpl. rewrite serials_app. simpl. rewrite app_nil_r.
+    split; [|exact I].
+    rewrite map_app. simpl. apply NoDup_snoc; [exact ND|].
+    intros K. apply in_map_iff in K. destruct K as [y [Ey Iy]].
+    clear -FR Ey Iy. induction (w_events w) as [|z tbl IH]; simpl in *; [contradiction|].
+    destruct (ei_id z =? e) eqn:E; [discriminate|].
+    destruct Iy as [->|Iy]; [lia | apply IH; assumption].
+Qed.
+
+Lemma serial_inv_new pools maxint : serial_inv (new_world pools maxint (-1)).
+Proof.
+  unfold serial_inv, new_world; simpl. split; [constructor|]. intros _.
+  split; [reflexivity|]. split; [constructor | intros s []].
+Qed.
+
+Lemma serials_unique_entries tbl : NoDup (serials tbl) ->
+  forall x y s, In x tbl -> In y tbl -> ei_serial x = Some s -> ei_serial y = Some s -> x = y.
+Proof.
+  induction tbl as [|z tbl IH]; intros ND x y s Ix Iy Sx Sy; [contradiction|].
+  unfold serials in ND. simpl in ND. fold (serials tbl) in ND.
+  assert (Htail : forall u, In u tbl -> ei_serial u = Some s -> In s (serials tbl)).
+  { intros u Iu Su. unfold serials. apply in_flat_map. exists u. rewrite Su. split; [exact Iu | left; reflexivity]. }
+  destruct Ix as [->|Ix], Iy as [->|Iy]; [reflexivity| | |].
+  - rewrite Sx in ND. simpl in ND. inversion ND as [|? ? NI _]. exfalso. apply NI. apply (Htail y Iy Sy).
+  - rewrite Sy in ND. simpl in ND. inversion ND as [|? ? NI _]. exfalso. apply NI. apply (Htail x Ix Sx).
+  - assert (ND' : NoDup (serials tbl)).
+    { destruct (ei_serial z); simpl in ND; [inversion ND; assumption | exact ND]. }
+    apply (IH ND' x y s Ix Iy Sx Sy).
+Qed.
+
+Section Histories2.
+Variable h : handler.
+Variable maxdig : Z.
+
+(* serial numbers: unique within the first maxint+1 events that received one *)
+Theorem serial_unique_always pools maxint ops :
+  let w := fst (wrun h maxdig (new_world pools maxint (-1)) ops) in
+  Z.of_nat (length (serials (w_events w))) <= maxint + 1 ->
+  forall x y s, In x (w_events w) -> In y (w_events w) ->
+                ei_serial x = Some s -> ei_serial y = Some s -> x = y.
+Proof.
+  intros w Len.
+  assert (SI : serial_inv w).
+  { eapply (prims_ind_inv serial_inv prim_serial_inv); [apply wrun_prims | apply serial_inv_new]. }
+  assert (M : w_maxint w = maxint).
+  { exact (f_equal snd (static_always h maxdig pools maxint (-1) ops)). }
+  destruct SI as [_ I]. rewrite M in I. destruct (I Len) as [_ [ND _]].
+  apply serials_unique_entries. exact ND.
+Qed.
+
+End Histories2.
+
+(* poolserial: a pool gives an event a number only the first time it accepts
+   it, and the numbers of a pool count up by one (until maxint) *)
+Theorem accept_event_poolserial w pi e head p x :
+  nth_error (w_pools w) pi = Some p -> ev_lookup (w_events w) e = Some x ->
+  let w' := fst (accept_event w pi e head) in
+  exists p' x', nth_error (w_pools w') pi = Some p' /\ ev_lookup (w_events w') e = Some x' /\
+    match ps_lookup (ei_pserials x) pi with
+    | Some s => pl_serial p' = pl_serial p /\ ps_lookup (ei_pserials x') pi = Some s
+    | None => pl_serial p' = new_serial (w_maxint w) (pl_serial p) /\
+              ps_lookup (ei_pserials x') pi = Some (pl_serial p') /\
+              (pl_serial p <> w_maxint w -> pl_serial p' = pl_serial p + 1)
+    end.
+Proof.
+  intros N L. destruct (ev_lookup_In _ _ _ L) as [_ Idx].
+  assert (LU : forall x', ei_id x' = e -> ev_lookup (ev_update (w_events w) x') e = Some x').
+  { intros x' Ex. clear -L Ex. induction (w_events w) as [|y tbl IH]; simpl in *; [discriminate|].
+    destruct (ei_id y =? e) eqn:E.
+    - replace (ei_id y =? ei_id x') with true by lia. simpl. replace (ei_id x' =? e) with true by lia. reflexivity.
+    - replace (ei_id y =? ei_id x') with false by lia. simpl. rewrite E. apply IH. exact L. }
+  assert (PSL : forall l s, ps_lookup l pi = None -> ps_lookup (l ++ [(pi, s)]) pi = Some s).
+  { intros l s. induction l as [|[k v] l IH]; simpl; [rewrite Nat.eqb_refl; reflexivity|].
+    destruct (Nat.eqb k pi); [discriminate | exact IH]. }
+  unfold accept_event. rewrite N, L.
+  destruct (ei_serial x); destruct (ps_lookup (ei_pserials x) pi) eqn:PS;
+    destruct (pl_bufsize p <=? Z.of_nat (length (pl_buffer p))); destruct (pl_buffer p);
+    simpl; eexists; eexists; (split; [eapply upd_same; exact N|]); (split; [apply LU; exact Idx|]); simpl;
+    try (split; [reflexivity | exact PS]);
+    (split; [reflexivity|]); (split; [apply PSL; exact PS | intros K; apply new_serial_next; exact K]).
+Qed.
+
+(* =============================================== FIFO *)
+Definition sent_of (o : list weff) : list ev :=
+  flat_map (fun x => match x with ESent _ _ e _ _ _ => [e] | _ => [] end) o.
+Definition raised (o : list weff) : bool :=
+  existsb (fun x => match x with ERaise => true | _ => false end) o.
+Definition ssent_of (o : list sout) : list ev :=
+  flat_map (fun x => match x with SSent _ e => [e] | _ => [] end) o.
+
+Lemma sent_of_app a b : sent_of (a ++ b) = sent_of a ++ sent_of b.
+Proof. unfold sent_of. apply flat_map_app. Qed.
+Lemma raised_app a b : raised (a ++ b) = raised a || raised b.
+Proof. unfold raised. apply existsb_app. Qed.
+
+Lemma dispatch_from_sent e env ws : forall ps k,
+  let '(ps', o, ok) := dispatch_from k ps e env ws in
+  ssent_of o = (if ok then [e] else []).
+Proof.
+  induction ps as [|p rest IH]; intros k; simpl; [reflexivity|].
+  destruct (try_send p e env (wnth ws k)) as [p' r]. destruct r.
+  - specialize (IH (S k)). destruct (dispatch_from (S k) rest e env ws) as [[rest' o] ok]. exact IH.
+  - reflexivity.
+  - specialize (IH (S k)). destruct (dispatch_from (S k) rest e env ws) as [[rest' o] ok]. exact IH.
+  - reflexivity.
+Qed.
+
+Lemma sent_of_conv pi ser pser t o : sent_of (flat_map (conv_sout pi ser pser t) o) = ssent_of o.
+Proof.
+  induction o as [|x o IH]; [reflexivity|]. simpl. rewrite sent_of_app, IH.
+  destruct x; reflexivity.
+Qed.
+
+Lemma raised_conv pi ser pser t o :
+  raised (flat_map (conv_sout pi ser pser t) o) = existsb (fun x => match x with SRaise => true | _ => false end) o.
+Proof.
+  induction o as [|x o IH]; [reflexivity|]. simpl. rewrite raised_app, IH. destruct x; reflexivity.
+Qed.
+
+(* one _dispatchEvent: the pool's queue and the event table are untouched;
+   True = sent to exactly one listener, False = to none *)
+Lemma dispatch_event_facts w pi e ws p :
+  nth_error (w_pools w) pi = Some p ->
+  let '(w', o, r) := dispatch_event w pi e ws in
+  w_events w' = w_events w /\
+  (exists p', nth_error (w_pools w') pi = Some p' /\ pl_buffer p' = pl_buffer p /\ pl_bufsize p' = pl_bufsize p) /\
+  match r with
+  | Some ok => sent_of o = (if ok then [e] else []) /\ raised o = false /\ exists x, ev_lookup (w_events w) e = Some x
+  | None => raised o = true
+  end.
+Proof.
+  intros N. unfold dispatch_event. rewrite N.
+  destruct (ev_lookup (w_events w) e) as [x|] eqn:L.
+  2:{ split; [reflexivity|]. split; [exists p; auto | reflexivity]. }
+  destruct (ei_serial x) as [ser|].
+  2:{ split; [reflexivity|]. split; [exists p; auto | reflexivity]. }
+  destruct (ps_lookup (ei_pserials x) pi) as [pser|].
+  2:{ split; [reflexivity|]. split; [exists p; auto | reflexivity]. }
+  pose proof (dispatch_from_sent e (envelope ser pser pi (ei_type x)) ws (pl_procs p) 0%nat) as DS.
+  destruct (dispatch_from 0 (pl_procs p) e (envelope ser pser pi (ei_type x)) ws) as [[procs' o] ok].
+  split; [reflexivity|]. split.
+  - eexists. split; [unfold upd_pool; simpl; eapply upd_same; exact N|]. simpl. auto.
+  - destruct (existsb (fun x0 => match x0 with SRaise => true | _ => false end) o) eqn:R.
+    + rewrite raised_conv. exact R.
+    + rewrite sent_of_conv, raised_conv. split; [exact DS|]. split; [exact R | eauto].
+Qed.
+
+(* a dispatch pass sends the head of the queue, then the next, ...: what was
+   sent, in order, followed by what remains, is the queue as it was *)
+Theorem dispatch_fifo pi : forall f w wss p,
+  nth_error (w_pools w) pi = Some p -> pool_bound p -> (length (pl_buffer p) < f)%nat ->
+  let '(w', o) := dispatch_loop f w pi wss in
+  raised o = false ->
+  exists p', nth_error (w_pools w') pi = Some p' /\ pl_buffer p = sent_of o ++ pl_buffer p'.
+Proof.
+  induction f as [|f IH]; intros w wss p N Bd Lf; [lia|].
+  simpl. rewrite N. destruct (pl_buffer p) as [|e rest] eqn:B.
+  { intros _. exists p. rewrite B. auto. }
+  set (p0 := mkPool (pl_subs p) (pl_bufsize p) rest (pl_serial p) (pl_procs p)).
+  assert (N0 : nth_error (w_pools (upd_pool w pi p0)) pi = Some p0) by (simpl; eapply upd_same; exact N).
+  pose proof (dispatch_event_facts (upd_pool w pi p0) pi e (hd [] wss) p0 N0) as F.
+  destruct (dispatch_event (upd_pool w pi p0) pi e (hd [] wss)) as [[w1 o1] r].
+  destruct F as [Ev [[p1 [N1 [B1 S1]]] Fr]]. simpl in B1, S1.
+  destruct r as [[|]|].
+  - (* sent: continue with the rest *)
+    destruct Fr as [So [Ro _]].
+    assert (Bd1 : pool_bound p1).
+    { unfold pool_bound in *. rewrite B1, S1. rewrite B in Bd. simpl in Bd. lia. }
+    assert (L1 : (length (pl_buffer p1) < f)%nat) by (rewrite B1; simpl in Lf; lia).
+    specialize (IH w1 (tl wss) p1 N1 Bd1 L1).
+    destruct (dispatch_loop f w1 pi (tl wss)) as [w2 o2].
+    rewrite raised_app, Ro. simpl. intros R2. destruct (IH R2) as [p' [N' E']].
+    exists p'. split; [exact N'|]. rewrite sent_of_app, So, B1 in *. simpl. rewrite E'. reflexivity.
+  - (* not sent: back to the head, nothing is discarded *)
+    destruct Fr as [So [Ro [x Lx]]].
+    assert (Lx1 : ev_lookup (w_events w1) e = Some x) by (rewrite Ev; exact Lx).
+    pose proof (accept_event_overflow w1 pi e true p1 x N1 Lx1) as A.
+    destruct (accept_event w1 pi e true) as [w2 o2]. destruct A as [p' [N' A]].
+    intros _. exists p'. split; [exact N'|].
+    rewrite sent_of_app, So. simpl.
+    assert (So2 : sent_of o2 = [] /\ pl_buffer p' = e :: rest).
+    { rewrite B1, S1 in A. unfold pool_bound in Bd. rewrite B in Bd. simpl length in Bd.
+      destruct (pl_bufsize p <=? Z.of_nat (length rest)) eqn:Ov.
+      - destruct rest as [|d rest'].
+        + destruct A as [-> ->]. auto.
+        + simpl length in *. lia.
+      - destruct A as [-> ->]. auto. }
+    destruct So2 as [-> ->]. reflexivity.
+  - (* exception *)
+    intros R. rewrite Fr in R. discriminate.
+Qed.
+
+(* =============================================== no loss *)
+(* For a pool pi and an event e:
+     accepted (EOffered pi e) =
+       buffered in pi's queue + in flight (event slot of a listener of pi)
+       + acknowledged OK (EAcked pi _ e) + discarded by overflow (EDiscard pi e)
+   as an equation between numbers of occurrences, at every point of every
+   history in which no exception escaped. *)
+Definition count_ev (e : ev) (l : list ev) : nat := length (filter (fun f => f =? e) l).
+Definition inflight_proc (e : ev) (q : proc) : nat :=
+  match l_event (p_l q) with Some f => if f =? e then 1%nat else 0%nat | None => 0%nat end.
+Definition inflight_procs (e : ev) (qs : list proc) : nat := list_sum (map (inflight_proc e) qs).
+Definition held_pool (e : ev) (p : pool) : nat := (count_ev e (pl_buffer p) + inflight_procs e (pl_procs p))%nat.
+Definition held (pi : nat) (e : ev) (w : world) : nat :=
+  match nth_error (w_pools w) pi with Some p => held_pool e p | None => 0%nat end.
+
+Definition n_eff (f : weff -> bool) (o : list weff) : nat := length (filter f o).
+Definition is_acked pi e (x : weff) := match x with EAcked q _ f => Nat.eqb q pi && (f =? e) | _ => false end.
+Definition is_discard pi e (x : weff) := match x with EDiscard q f => Nat.eqb q pi && (f =? e) | _ => false end.
+Definition n_offered pi e := n_eff (is_offered pi e).
+Definition n_acked pi e := n_eff (is_acked pi e).
+Definition n_discard pi e := n_eff (is_discard pi e).
+
+Lemma n_eff_app f a b : n_eff f (a ++ b) = (n_eff f a + n_eff f b)%nat.
+Proof. unfold n_eff. rewrite filter_app, app_length. reflexivity. Qed.
+Lemma n_eff_cons f x o : n_eff f (x :: o) = ((if f x then 1 else 0) + n_eff f o)%nat.
+Proof. unfold n_eff. simpl. destruct (f x); reflexivity. Qed.
+
+Lemma count_ev_app e a b : count_ev e (a ++ b) = (count_ev e a + count_ev e b)%nat.
+Proof. unfold count_ev. rewrite filter_app, app_length. reflexivity. Qed.
+Lemma count_ev_cons e x l : count_ev e (x :: l) = ((if (x =? e)%Z then 1 else 0) + count_ev e l)%nat.
+Proof. unfold count_ev. simpl. destruct (x =? e); reflexivity. Qed.
+
+Definition ind (b : bool) : nat := if b then 1%nat else 0%nat.
+
+(* the balance of one step, for pool pi and event e *)
+Definition balanced (pi : nat) (e : ev) (w : world) (o : list weff) (w' : world) : Prop :=
+  (n_offered pi e o + held pi e w = held pi e w' + n_acked pi e o + n_discard pi e o)%nat.
+
+Lemma balanced_refl pi e w : balanced pi e w [] w.
+Proof. unfold balanced, n_offered, n_acked, n_discard, n_eff. simpl. lia. Qed.
+
+Lemma balanced_trans pi e w1 o1 w2 o2 w3 :
+  balanced pi e w1 o1 w2 -> balanced pi e w2 o2 w3 -> balanced pi e w1 (o1 ++ o2) w3.
+Proof. unfold balanced, n_offered, n_acked, n_discard. rewrite !n_eff_app. lia. Qed.
+
+Lemma held_upd_same w pi p p' cbs gs tbl mi e :
+  nth_error (w_pools w) pi = Some p ->
+  held pi e (mkW (upd (w_pools w) pi p') cbs gs tbl mi) = held_pool e p'.
+Proof. intros N. unfold held. simpl. rewrite (upd_same _ _ _ _ N). reflexivity. Qed.
+
+Lemma held_upd_other w pi pj p' cbs gs tbl mi e :
+  pj <> pi -> held pj e (mkW (upd (w_pools w) pi p') cbs gs tbl mi) = held pj e w.
+Proof. intros NE. unfold held. simpl. rewrite upd_other by congruence. reflexivity. Qed.
+
+(* (L1) _acceptEvent: the event enters the queue of that pool; whatever leaves is logged *)
+Lemma accept_event_balance w q f head pi e :
+  let '(w', o) := accept_event w q f head in
+  raised o = false ->
+  (held pi e w' + n_discard pi e o = held pi e w + ind (Nat.eqb q pi && (f =? e)%Z))%nat /\
+  n_offered pi e o = 0%nat /\ n_acked pi e o = 0%nat.
+Proof.
+  unfold accept_event. destruct (nth_error (w_pools w) q) as [p|] eqn:N; [|simpl; discriminate].
+  destruct (ev_lookup (w_events w) f) as [x|] eqn:L; [|simpl; discriminate].
+  assert (Main : forall gs psn tbl,
+    let '(buf, eff) := if pl_bufsize p <=? Z.of_nat (length (pl_buffer p))
+                       then match pl_buffer p with d :: rest => (rest, [EDiscard q d]) | [] => ([], []) end
+                       else (pl_buffer p, []) in
+    let w' := mkW (upd (w_pools w) q (mkPool (pl_subs p) (pl_bufsize p) (if head then f :: buf else buf ++ [f]) psn (pl_procs p)))
+                  (w_callbacks w) gs tbl (w_maxint w) in
+    (held pi e w' + n_discard pi e eff = held pi e w + ind (Nat.eqb q pi && (f =? e)%Z))%nat /\
+    n_offered pi e eff = 0%nat /\ n_acked pi e eff = 0%nat).
+  { intros gs psn tbl.
+    destruct (Nat.eqb q pi) eqn:Q.
+    - apply Nat.eqb_eq in Q. subst q.
+      assert (Hw : held pi e w = held_pool e p) by (unfold held; rewrite N; reflexivity).
+      destruct (pl_bufsize p <=? Z.of_nat (length (pl_buffer p))); [destruct (pl_buffer p) as [|d rest] eqn:B|];
+        cbv zeta; rewrite (held_upd_same w pi p _ _ _ _ _ e N), Hw; unfold held_pool; simpl pl_buffer; simpl pl_procs;
+        rewrite ?B; destruct head; rewrite ?count_ev_app, ?count_ev_cons;
+        unfold n_discard, n_offered, n_acked, n_eff, ind; simpl; rewrite ?Nat.eqb_refl; simpl;
+        unfold count_ev; simpl; repeat match goal with |- context [?a =? ?b] => destruct (a =? b) end; simpl; lia.
+    - assert (NE : pi <> q) by (apply Nat.eqb_neq in Q; congruence).
+      destruct (pl_bufsize p <=? Z.of_nat (length (pl_buffer p))); [destruct (pl_buffer p) as [|d rest]|];
+        cbv zeta; rewrite (held_upd_other w q pi _ _ _ _ _ e NE);
+        unfold n_discard, n_offered, n_acked, n_eff, ind; simpl; rewrite ?Q; simpl; lia. }
+  destruct (ei_serial x); destruct (ps_lookup (ei_pserials x) q);
+    match goal with |- context [mkW (upd _ _ (mkPool _ _ _ ?psn _)) _ ?gs ?tbl _] => specialize (Main gs psn tbl) end;
+    destruct (pl_bufsize p <=? Z.of_nat (length (pl_buffer p))); destruct (pl_buffer p); intros _; exact Main.
+Qed.
+
+(* ---- the listeners are not touched by _acceptEvent / notify *)
+Definition procs_of (w : world) : list (list proc) := map pl_procs (w_pools w).
+
+Lemma accept_event_procs w q f head : procs_of (fst (accept_event w q f head)) = procs_of w.
+Proof.
+  destruct (accept_event_shape w q f head) as [E|[p [x [buf' [ser [gs [tbl [N [L [E _]]]]]]]]]];
+    rewrite E; [reflexivity|]. unfold procs_of. simpl. rewrite (map_upd pl_procs _ _ _ p N) by reflexivity. reflexivity.
+Qed.
+
+Lemma handle_rejected_procs w q owner e : procs_of (fst (handle_rejected w q owner e)) = procs_of w.
+Proof.
+  unfold handle_rejected. destruct (Nat.eqb owner q); [|reflexivity]. destruct e as [e'|]; [|reflexivity].
+  pose proof (accept_event_procs w q e' true) as A. destruct (accept_event w q e' true). exact A.
+Qed.
+
+Lemma notify_cbs_procs t n : forall cbs w, procs_of (fst (notify_cbs cbs w t n)) = procs_of w.
+Proof.
+  induction cbs as [|[T c] r IH]; intros w; simpl; [reflexivity|].
+  destruct (subtype_b t T); [|apply IH].
+  assert (P : procs_of (fst (match c, n with
+                            | CAccept pi, NEvent e => let '(w', o) := accept_event w pi e false in (w', EOffered pi e :: o)
+                            | CRejected pi, NRejected owner _ e => handle_rejected w pi owner e
+                            | _, _ => (w, [ERaise])
+                            end)) = procs_of w).
+  { destruct c as [pi|pi], n as [e|owner i e]; try reflexivity.
+    - pose proof (accept_event_procs w pi e false) as P. destruct (accept_event w pi e false). exact P.
+    - apply handle_rejected_procs. }
+  destruct (match c, n with
+            | CAccept pi, NEvent e => let '(w', o) := accept_event w pi e false in (w', EOffered pi e :: o)
+            | CRejected pi, NRejected owner _ e => handle_rejected w pi owner e
+            | _, _ => (w, [ERaise])
+            end) as [w1 o1]. simpl in P.
+  specialize (IH w1). destruct (notify_cbs r w1 t n) as [w2 o2]. simpl in *. congruence.
+Qed.
+
+Lemma notify_procs w n : procs_of (fst (notify w n)) = procs_of w.
+Proof. unfold notify. destruct (note_type w n); [apply notify_cbs_procs | reflexivity]. Qed.
+
+Lemma emit_procs w e t : procs_of (fst (emit w e t)) = procs_of w.
+Proof.
+  unfold emit. destruct (ev_lookup (w_events w) e); [reflexivity|].
+  rewrite notify_procs. reflexivity.
+Qed.
+
+(* (L2) notify of an Event: every offer is matched by an entry in that pool's queue *)
+Lemma notify_cbs_event_balance t f pi e : forall cbs w,
+  let '(w', o) := notify_cbs cbs w t (NEvent f) in
+  raised o = false -> balanced pi e w o w'.
+Proof.
+  induction cbs as [|[T c] r IH]; intros w; simpl; [intros _; apply balanced_refl|].
+  destruct (subtype_b t T); [|apply IH].
+  destruct c as [q|q].
+  - pose proof (accept_event_balance w q f false pi e) as A.
+    destruct (accept_event w q f false) as [w1 o1].
+    specialize (IH w1). destruct (notify_cbs r w1 t (NEvent f)) as [w2 o2].
+    change ((EOffered q f :: o1) ++ o2) with ([EOffered q f] ++ o1 ++ o2).
+    rewrite !raised_app. simpl. intros R. apply orb_false_iff in R. destruct R as [R1 R2].
+    destruct (A R1) as [A1 [A2 A3]]. specialize (IH R2).
+    unfold balanced in *. unfold n_offered, n_acked, n_discard in *. rewrite !n_eff_cons, !n_eff_app.
+    simpl. unfold ind in A1. destruct (Nat.eqb q pi && (f =? e)); simpl; lia.
+  - specialize (IH w). destruct (notify_cbs r w t (NEvent f)) as [w2 o2]. simpl. discriminate.
+Qed.
+
+(* (L3) notify of an EventRejectedEvent: the owner pool re-buffers, once per
+   registered handle_rejected callback of that pool *)
+Definition rej_sel (owner : nat) (c : etype * cb) : bool :=
+  subtype_b T_EventRejectedEvent (fst c) && match snd c with CRejected q => Nat.eqb q owner | _ => false end.
+
+Lemma handle_rejected_balance w q owner f pi e :
+  let '(w', o) := handle_rejected w q owner (Some f) in
+  raised o = false ->
+  (held pi e w' + n_discard pi e o = held pi e w + ind (Nat.eqb q owner && Nat.eqb owner pi && (f =? e)%Z))%nat /\
+  n_offered pi e o = 0%nat /\ n_acked pi e o = 0%nat.
+Proof.
+  unfold handle_rejected. destruct (Nat.eqb owner q) eqn:Q.
+  - apply Nat.eqb_eq in Q. subst q. rewrite Nat.eqb_refl. simpl.
+    pose proof (accept_event_balance w owner f true pi e) as A.
+    destruct (accept_event w owner f true) as [w' o]. simpl. intros R.
+    destruct (A R) as [A1 [A2 A3]]. unfold n_discard, n_offered, n_acked in *. rewrite !n_eff_cons. simpl. auto.
+  - rewrite Nat.eqb_sym, Q. simpl. intros _. unfold n_discard, n_offered, n_acked, n_eff, ind. simpl. lia.
+Qed.
+
+Lemma notify_cbs_rejected_balance owner i f pi e : forall cbs w,
+  let '(w', o) := notify_cbs cbs w T_EventRejectedEvent (NRejected owner i (Some f)) in
+  raised o = false ->
+  (held pi e w' + n_discard pi e o =
+   held pi e w + length (filter (rej_sel owner) cbs) * ind (Nat.eqb owner pi && (f =? e)%Z))%nat /\
+  n_offered pi e o = 0%nat /\ n_acked pi e o = 0%nat.
+Proof.
+  induction cbs as [|[T c] r IH]; intros w; simpl.
+  { intros _. unfold n_discard, n_offered, n_acked, n_eff. simpl. lia. }
+  unfold rej_sel at 1. simpl. destruct (subtype_b T_EventRejectedEvent T); simpl; [|apply IH].
+  destruct c as [q|q].
+  - specialize (IH w). destruct (notify_cbs r w T_EventRejectedEvent (NRejected owner i (Some f))) as [w2 o2].
+    simpl. discriminate.
+  - pose proof (handle_rejected_balance w q owner f pi e) as A.
+    destruct (handle_rejected w q owner (Some f)) as [w1 o1].
+    specialize (IH w1). destruct (notify_cbs r w1 T_EventRejectedEvent (NRejected owner i (Some f))) as [w2 o2].
+    rewrite raised_app. intros R. apply orb_false_iff in R. destruct R as [R1 R2].
+    destruct (A R1) as [A1 [A2 A3]]. destruct (IH R2) as [B1 [B2 B3]].
+    unfold n_discard, n_offered, n_acked in *. rewrite !n_eff_app.
+    split; [|split; lia].
+    unfold ind in *. destruct (Nat.eqb q owner); simpl in *; destruct (Nat.eqb owner pi && (f =? e)); simpl in *; lia.
+Qed.
+
+Lemma subscribe_all_rej_count owner : forall ps cbs k,
+  length (filter (rej_sel owner) (subscribe_all cbs k ps)) =
+  (length (filter (rej_sel owner) cbs) +
+   if (k <=? owner)%nat && (owner <? k + length ps)%nat then 1 else 0)%nat.
+Proof.
+  induction ps as [|p ps IH]; intros cbs k; simpl.
+  - replace ((k <=? owner)%nat && (owner <? k + 0)%nat) with false by lia. lia.
+  - rewrite IH. unfold subscribe_pool. rewrite !filter_app, !app_length.
+    assert (Z0 : length (filter (rej_sel owner) (map (fun t => (t, CAccept k)) (subscription_types (pl_subs p)))) = 0%nat).
+    { induction (subscription_types (pl_subs p)) as [|t l IHl]; [reflexivity|]. simpl.
+      unfold rej_sel at 1. simpl. rewrite andb_false_r. exact IHl. }
+    rewrite Z0.
+    assert (Z1 : length (filter (rej_sel owner) [(T_EventRejectedEvent, CRejected k)]) = ind (Nat.eqb k owner)).
+    { simpl. unfold rej_sel. simpl. rewrite ?subtype_b_refl. simpl. destruct (Nat.eqb k owner); reflexivity. }
+    rewrite Z1. unfold ind.
+    destruct (Nat.eqb k owner) eqn:E.
+    + apply Nat.eqb_eq in E. subst k.
+      replace ((S owner <=? owner)%nat && (owner <? S owner + length ps)%nat) with false by lia.
+      replace ((owner <=? owner)%nat && (owner <? owner + S (length ps))%nat) with true by lia. lia.
+    + apply Nat.eqb_neq in E.
+      destruct ((k <=? owner)%nat && (owner <? k + S (length ps))%nat) eqn:K.
+      * replace ((S k <=? owner)%nat && (owner <? S k + length ps)%nat) with true by lia. lia.
+      * replace ((S k <=? owner)%nat && (owner <? S k + length ps)%nat) with false by lia. lia.
+Qed.
+
+Lemma notify_rejected_balance w owner i f pi e :
+  callbacks_ok w -> (owner < length (w_pools w))%nat ->
+  let '(w', o) := notify w (NRejected owner i (Some f)) in
+  raised o = false ->
+  (held pi e w' + n_discard pi e o = held pi e w + ind (Nat.eqb owner pi && (f =? e)%Z))%nat /\
+  n_offered pi e o = 0%nat /\ n_acked pi e o = 0%nat.
+Proof.
+  intros CB Lt. unfold notify. simpl.
+  pose proof (notify_cbs_rejected_balance owner i f pi e (w_callbacks w) w) as A.
+  destruct (notify_cbs (w_callbacks w) w T_EventRejectedEvent (NRejected owner i (Some f))) as [w' o].
+  intros R. destruct (A R) as [A1 A2]. split; [|exact A2].
+  rewrite CB, subscribe_all_rej_count in A1. simpl in A1.
+  replace (owner <? length (w_pools w))%nat with true in A1 by lia. lia.
+Qed.
+
+Lemma prims_length w w' : prims w w' -> length (w_pools w') = length (w_pools w).
+Proof.
+  intros P. pose proof (prims_static w w' P) as S. unfold static in S.
+  assert (E := f_equal (fun x => snd (fst (fst x))) S). simpl in E.
+  rewrite <- (map_length pl_subs (w_pools w')), E, map_length. reflexivity.
+Qed.
+
+(* ---- listeners: what set_proc does to `held` *)
+Lemma inflight_upd e : forall qs i q q',
+  nth_error qs i = Some q ->
+  (inflight_procs e (upd qs i q') + inflight_proc e q = inflight_procs e qs + inflight_proc e q')%nat.
+Proof.
+  induction qs as [|a qs IH]; intros i q q' N; destruct i; simpl in *; try discriminate.
+  - inversion N; subst. unfold inflight_procs. simpl. lia.
+  - specialize (IH i q q' N). unfold inflight_procs in *. simpl. lia.
+Qed.
+
+Lemma held_set_proc_same w pi i p q q' e :
+  get_proc w pi i = Some (p, q) ->
+  (held pi e (set_proc w pi i q') + inflight_proc e q = held pi e w + inflight_proc e q')%nat.
+Proof.
+  unfold get_proc, set_proc. destruct (nth_error (w_pools w) pi) as [p0|] eqn:N; [|discriminate].
+  destruct (nth_error (pl_procs p0) i) as [q0|] eqn:Ni; [|discriminate]. intros H. inversion H; subst.
+  unfold held at 1. unfold upd_pool. simpl. rewrite (upd_same _ _ _ _ N).
+  unfold held. rewrite N. unfold held_pool. simpl.
+  pose proof (inflight_upd e (pl_procs p) i q q' Ni). lia.
+Qed.
+
+Lemma held_set_proc_other w pi0 i q' pi e : pi <> pi0 -> held pi e (set_proc w pi0 i q') = held pi e w.
+Proof.
+  intros NE. unfold set_proc. destruct (nth_error (w_pools w) pi0) as [p0|]; [|reflexivity].
+  unfold held, upd_pool. simpl. rewrite upd_other by congruence. reflexivity.
+Qed.
+
+(* ---- the invariant carried along a history *)
+Definition good (w : world) : Prop := callbacks_ok w /\ Forall (Forall pinv) (procs_of w).
+
+Lemma good_procs_eq w w' : prims w w' -> procs_of w' = procs_of w -> good w -> good w'.
+Proof. intros P E [C F]. split; [eapply callbacks_ok_prims; eassumption | rewrite E; exact F]. Qed.
+
+Lemma get_proc_pinv w pi i p q : good w -> get_proc w pi i = Some (p, q) -> pinv q.
+Proof.
+  intros [_ F]. unfold get_proc. destruct (nth_error (w_pools w) pi) as [p0|] eqn:N; [|discriminate].
+  destruct (nth_error (pl_procs p0) i) as [q0|] eqn:Ni; [|discriminate]. intros H. inversion H; subst.
+  rewrite Forall_forall in F. specialize (F (pl_procs p)).
+  assert (I : In (pl_procs p) (procs_of w)) by (unfold procs_of; apply in_map; eapply nth_error_In; exact N).
+  specialize (F I). rewrite Forall_forall in F. apply F. eapply nth_error_In. exact Ni.
+Qed.
+
+Lemma get_proc_lt w pi i p q : get_proc w pi i = Some (p, q) -> (pi < length (w_pools w))%nat.
+Proof.
+  unfold get_proc. destruct (nth_error (w_pools w) pi) eqn:N; [|discriminate]. intros _.
+  apply nth_error_Some. congruence.
+Qed.
+
+Lemma good_set_proc w pi i p q q' : good w -> get_proc w pi i = Some (p, q) -> pinv q' -> good (set_proc w pi i q').
+Proof.
+  intros G GP Iq. destruct G as [C F]. split.
+  - eapply callbacks_ok_prims; [apply set_proc_prims | exact C].
+  - unfold get_proc in GP. unfold set_proc.
+    destruct (nth_error (w_pools w) pi) as [p0|] eqn:N; [|discriminate].
+    destruct (nth_error (pl_procs p0) i) as [q0|] eqn:Ni; [|discriminate]. inversion GP; subst.
+    unfold procs_of, upd_pool. simpl.
+    assert (Fp : Forall pinv (pl_procs p)).
+    { rewrite Forall_forall in F. apply F. unfold procs_of. apply in_map. eapply nth_error_In. exact N. }
+    clear -F N Fp Iq. unfold procs_of in F. revert pi N.
+    induction (w_pools w) as [|a l IH]; intros pi N; destruct pi; simpl in *; try discriminate.
+    + inversion N; subst. inversion F; subst. constructor; [apply Forall_upd; assumption | assumption].
+    + inversion F; subst. constructor; [assumption | apply IH; assumption].
+Qed.
+
+(* (L4) the answers of a listener of pool pi0, routed in order *)
+Definition ans_ev (e : ev) (x : out) : nat :=
+  match x with
+  | ORejected (Some f) | OProcessed (Some f) => if f =? e then 1%nat else 0%nat
+  | _ => 0%nat
+  end.
+Definition ans_count (e : ev) (ol : list out) : nat := list_sum (map (ans_ev e) ol).
+
+Ltac use_step S :=
+  let T := fresh "T" in
+  pose proof S as T;
+  match type of T with context [route_outs ?w1 ?a ?b ?r] => destruct (route_outs w1 a b r) end;
+  exact T.
+
+Section NoLoss.
+Variable h : handler.
+Variable maxdig : Z.
+
+Lemma route_outs_balance pi0 i pi e : forall ol w,
+  callbacks_ok w -> (pi0 < length (w_pools w))%nat ->
+  let '(w', o) := route_outs w pi0 i ol in
+  raised o = false ->
+  (held pi e w' + n_discard pi e o + n_acked pi e o = held pi e w + ind (Nat.eqb pi0 pi) * ans_count e ol)%nat /\
+  n_offered pi e o = 0%nat.
+Proof.
+  induction ol as [|x r IH]; intros w CB Lt; simpl.
+  { intros _. unfold n_discard, n_acked, n_offered, n_eff, ans_count. simpl. lia. }
+  assert (Step : forall w1 o1,
+    prims w w1 ->
+    (raised o1 = false ->
+     (held pi e w1 + n_discard pi e o1 + n_acked pi e o1 = held pi e w + ind (Nat.eqb pi0 pi) * ans_ev e x)%nat /\
+     n_offered pi e o1 = 0%nat) ->
+    let '(w2, o2) := route_outs w1 pi0 i r in
+    raised (o1 ++ o2) = false ->
+    (held pi e w2 + n_discard pi e (o1 ++ o2) + n_acked pi e (o1 ++ o2) =
+     held pi e w + ind (Nat.eqb pi0 pi) * ans_count e (x :: r))%nat /\
+    n_offered pi e (o1 ++ o2) = 0%nat).
+  { intros w1 o1 P1 H1.
+    assert (CB1 : callbacks_ok w1) by (eapply callbacks_ok_prims; eassumption).
+    assert (Lt1 : (pi0 < length (w_pools w1))%nat) by (rewrite (prims_length _ _ P1); exact Lt).
+    specialize (IH w1 CB1 Lt1). destruct (route_outs w1 pi0 i r) as [w2 o2].
+    rewrite raised_app. intros R. apply orb_false_iff in R. destruct R as [R1 R2].
+    destruct (H1 R1) as [A1 A2]. destruct (IH R2) as [B1 B2].
+    unfold n_discard, n_acked, n_offered in *. rewrite !n_eff_app.
+    unfold ans_count in *. simpl. split; lia. }
+  destruct x as [n|eo|eo|].
+  - use_step (Step w [] (prims_refl w)
+        ltac:(intros _; unfold n_discard, n_acked, n_offered, n_eff; simpl; lia)).
+  - destruct eo as [f|].
+    + pose proof (notify_rejected_balance w pi0 i f pi e CB Lt) as A.
+      pose proof (notify_prims w (NRejected pi0 i (Some f))) as P.
+      destruct (notify w (NRejected pi0 i (Some f))) as [w1 o1]. simpl in P.
+      assert (H1 : raised (ERejected pi0 i (Some f) :: o1) = false ->
+                   (held pi e w1 + n_discard pi e (ERejected pi0 i (Some f) :: o1) +
+                    n_acked pi e (ERejected pi0 i (Some f) :: o1) =
+                    held pi e w + ind (Nat.eqb pi0 pi) * ans_ev e (ORejected (Some f)))%nat /\
+                   n_offered pi e (ERejected pi0 i (Some f) :: o1) = 0%nat).
+      { simpl. intros R. destruct (A R) as [A1 [A2 A3]].
+        unfold n_discard, n_acked, n_offered in *. rewrite !n_eff_cons. simpl.
+        unfold ind in *. destruct (Nat.eqb pi0 pi); destruct (f =? e); simpl in *; lia. }
+      use_step (Step w1 (ERejected pi0 i (Some f) :: o1) P H1).
+    + (* EventRejectedEvent without an event: _acceptEvent(None) raises *)
+      unfold notify. simpl.
+      pose proof (notify_cbs_prims T_EventRejectedEvent (NRejected pi0 i None) (w_callbacks w) w) as P.
+      destruct (notify_cbs (w_callbacks w) w T_EventRejectedEvent (NRejected pi0 i None)) as [w1 o1] eqn:NC. simpl in P.
+      assert (H1 : raised (ERejected pi0 i None :: o1) = false ->
+                   (held pi e w1 + n_discard pi e (ERejected pi0 i None :: o1) +
+                    n_acked pi e (ERejected pi0 i None :: o1) =
+                    held pi e w + ind (Nat.eqb pi0 pi) * ans_ev e (ORejected None))%nat /\
+                   n_offered pi e (ERejected pi0 i None :: o1) = 0%nat).
+      { simpl. intros R. exfalso.
+        revert NC R. unfold callbacks_ok in CB. rewrite CB.
+        assert (G : forall ps cbs k w0 w1 o1, (k <= pi0 < k + length ps)%nat ->
+                    notify_cbs (subscribe_all cbs k ps) w0 T_EventRejectedEvent (NRejected pi0 i None) = (w1, o1) ->
+                    raised o1 = true).
+        { clear. induction ps as [|p ps IHp]; intros cbs k w0 w1 o1 Rg; simpl in *; [lia|].
+          destruct (Nat.eq_dec k pi0) as [->|NE].
+          - intros NC.
+            assert (K : forall l (w0 : world) a b, notify_cbs (l ++ (T_EventRejectedEvent, CRejected pi0) :: a) w0
+                          T_EventRejectedEvent (NRejected pi0 i None) = b -> raised (snd b) = true).
+            { clear. induction l as [|[T c] l IHl]; intros w0 a b E; simpl in E.
+              - rewrite ?subtype_b_refl in E. unfold handle_rejected in E. rewrite Nat.eqb_refl in E.
+                destruct (notify_cbs a w0 T_EventRejectedEvent (NRejected pi0 i None)) as [w2 o2]. subst b. reflexivity.
+              - destruct (subtype_b T_EventRejectedEvent T).
+                + destruct (match c with CAccept _ => (w0, [ERaise]) | CRejected pi => handle_rejected w0 pi pi0 None end) as [w3 o3].
+                  specialize (IHl w3 a). destruct (notify_cbs (l ++ (T_EventRejectedEvent, CRejected pi0) :: a) w3
+                                                     T_EventRejectedEvent (NRejected pi0 i None)) as [w4 o4] eqn:E4.
+                  subst b. simpl. rewrite raised_app. pose proof (IHl _ eq_refl) as K4. simpl in K4. rewrite K4. apply orb_true_r.
+                + eapply IHl. exact E. }
+            assert (Sh : forall ps cbs k, exists tail, subscribe_all cbs k ps = cbs ++ tail).
+            { clear. induction ps as [|p ps IHq]; intros cbs k; simpl; [exists []; rewrite app_nil_r; reflexivity|].
+              destruct (IHq (subscribe_pool cbs k p) (S k)) as [tl E]. rewrite E. unfold subscribe_pool.
+              eexists. rewrite <- !app_assoc. reflexivity. }
+            destruct (Sh ps (subscribe_pool cbs pi0 p) (S pi0)) as [tl E]. rewrite E in NC.
+            unfold subscribe_pool in NC. rewrite <- !app_assoc in NC. simpl in NC.
+            rewrite app_assoc in NC.
+            exact (K _ _ _ _ NC).
+          - intros NC. eapply (IHp _ (S k)); [lia | exact NC]. }
+        intros NC R. simpl in R.
+        rewrite (G (w_pools w) [] 0%nat w w1 o1 ltac:(lia) NC) in R. discriminate. }
+      use_step (Step w1 (ERejected pi0 i None :: o1) P H1).
+  - destruct eo as [f|].
+    + use_step (Step w [EAcked pi0 i f] (prims_refl w)
+          ltac:(intros _; unfold n_discard, n_acked, n_offered, n_eff, ind; simpl;
+                destruct (Nat.eqb pi0 pi); destruct (f =? e); simpl; lia)).
+    + use_step (Step w [] (prims_refl w)
+          ltac:(intros _; unfold n_discard, n_acked, n_offered, n_eff; simpl; lia)).
+  - use_step (Step w [ERaise] (prims_refl w) ltac:(simpl; discriminate)).
+Qed.
+
+(* ---- dispatching moves the event from the queue into one listener's slot *)
+Lemma dispatch_from_inflight e env ws f : forall ps k,
+  Forall pinv ps ->
+  let '(ps', o, ok) := dispatch_from k ps e env ws in
+  Forall pinv ps' /\ inflight_procs f ps' = (inflight_procs f ps + ind (ok && (e =? f)%Z))%nat.
+Proof.
+  induction ps as [|p rest IH]; intros k F; simpl.
+  - split; [constructor | reflexivity].
+  - inversion F as [|? ? Ip Fr]; subst.
+    pose proof (try_send_inv p e env (wnth ws k) Ip) as [Ip' T].
+    pose proof (try_send_only_ready p e env (wnth ws k)) as A.
+    pose proof (try_send_not_sent p e env (wnth ws k)) as B.
+    destruct (try_send p e env (wnth ws k)) as [p' r]. simpl in Ip', T.
+    assert (Same : r <> SSentOk -> inflight_proc f p' = inflight_proc f p).
+    { intros NE. destruct (B p' r eq_refl NE) as [L _]. unfold inflight_proc. rewrite L. reflexivity. }
+    destruct r.
+    + specialize (IH (S k) Fr). destruct (dispatch_from (S k) rest e env ws) as [[rest' o] ok].
+      destruct IH as [F' E]. split; [constructor; assumption|].
+      unfold inflight_procs in *. simpl. rewrite E, Same by discriminate. lia.
+    + destruct (A p' eq_refl) as [_ [_ [_ [_ [_ Ev]]]]]. destruct T as [T0 _].
+      split; [constructor; assumption|].
+      unfold inflight_procs. simpl. unfold inflight_proc at 1 3. rewrite Ev.
+      unfold slot in T0. destruct (l_event (p_l p)); [discriminate|]. unfold ind. simpl.
+      destruct (e =? f); lia.
+    + specialize (IH (S k) Fr). destruct (dispatch_from (S k) rest e env ws) as [[rest' o] ok].
+      destruct IH as [F' E]. split; [constructor; assumption|].
+      unfold inflight_procs in *. simpl. rewrite E, Same by discriminate. lia.
+    + split; [constructor; assumption|].
+      unfold inflight_procs. simpl. rewrite Same by discriminate. unfold ind. simpl. lia.
+Qed.
+
+Lemma n_conv_zero pi0 ser pser t (o : list sout) g :
+  (forall q i e s ps tt, g (ESent q i e s ps tt) = false) -> (forall q i, g (EEpipe q i) = false) -> g ERaise = false ->
+  n_eff g (flat_map (conv_sout pi0 ser pser t) o) = 0%nat.
+Proof.
+  intros G1 G2 G3. induction o as [|x o IH]; [reflexivity|]. simpl. rewrite n_eff_app, IH.
+  destruct x; unfold n_eff; simpl; rewrite ?G1, ?G2, ?G3; reflexivity.
+Qed.
+
+Lemma good_upd_procs w pi0 p procs' :
+  good w -> nth_error (w_pools w) pi0 = Some p -> Forall pinv procs' ->
+  good (upd_pool w pi0 (mkPool (pl_subs p) (pl_bufsize p) (pl_buffer p) (pl_serial p) procs')).
+Proof.
+  intros [C F] N Fp. split.
+  - eapply callbacks_ok_prims; [apply prims_one; apply prim_procs; exact N | exact C].
+  - unfold procs_of, upd_pool in *. simpl. clear C. revert pi0 N.
+    induction (w_pools w) as [|a l IH]; intros pi0 N; destruct pi0; simpl in *; try discriminate.
+    + inversion F; subst. constructor; assumption.
+    + inversion F; subst. constructor; [assumption | apply IH; assumption].
+Qed.
+
+Lemma good_pool_procs w pi0 p : good w -> nth_error (w_pools w) pi0 = Some p -> Forall pinv (pl_procs p).
+Proof.
+  intros [_ F] N. rewrite Forall_forall in F. apply F. unfold procs_of. apply in_map. eapply nth_error_In. exact N.
+Qed.
+
+Lemma dispatch_event_balance w pi0 e0 ws p :
+  good w -> nth_error (w_pools w) pi0 = Some p ->
+  let '(w', o, r) := dispatch_event w pi0 e0 ws in
+  good w' /\
+  (forall pi e, held pi e w' =
+     (held pi e w + ind (match r with Some true => Nat.eqb pi0 pi && (e0 =? e)%Z | _ => false end))%nat \/ r = None) /\
+  (forall pi e, n_offered pi e o = 0%nat /\ n_acked pi e o = 0%nat /\ n_discard pi e o = 0%nat).
+Proof.
+  intros G N. unfold dispatch_event. rewrite N.
+  assert (Z0 : forall pi e, n_offered pi e [ERaise] = 0%nat /\ n_acked pi e [ERaise] = 0%nat /\ n_discard pi e [ERaise] = 0%nat)
+    by (intros; repeat split; reflexivity).
+  destruct (ev_lookup (w_events w) e0) as [x|]; [|split; [exact G|]; split; [right; reflexivity | exact Z0]].
+  destruct (ei_serial x) as [ser|]; [|split; [exact G|]; split; [right; reflexivity | exact Z0]].
+  destruct (ps_lookup (ei_pserials x) pi0) as [pser|]; [|split; [exact G|]; split; [right; reflexivity | exact Z0]].
+  pose proof (good_pool_procs w pi0 p G N) as Fp.
+  assert (D : forall f, let '(ps', o, ok) := dispatch_from 0 (pl_procs p) e0 (envelope ser pser pi0 (ei_type x)) ws in
+                        Forall pinv ps' /\ inflight_procs f ps' = (inflight_procs f (pl_procs p) + ind (ok && (e0 =? f)%Z))%nat)
+    by (intros f; apply dispatch_from_inflight; exact Fp).
+  destruct (dispatch_from 0 (pl_procs p) e0 (envelope ser pser pi0 (ei_type x)) ws) as [[procs' o] ok].
+  split; [apply good_upd_procs; [exact G | exact N | exact (proj1 (D 0))]|].
+  split.
+  - intros pi e. destruct (existsb (fun x0 => match x0 with SRaise => true | _ => false end) o); [right; reflexivity|].
+    left. destruct (Nat.eqb pi0 pi) eqn:Q.
+    + apply Nat.eqb_eq in Q. subst pi. unfold held, upd_pool. simpl. rewrite (upd_same _ _ _ _ N), N.
+      unfold held_pool. simpl. rewrite (proj2 (D e)). destruct ok; simpl; lia.
+    + unfold held, upd_pool. simpl. rewrite upd_other by (apply Nat.eqb_neq in Q; congruence).
+      destruct ok; simpl; unfold ind; simpl; lia.
+  - intros pi e. repeat split; apply n_conv_zero; intros; reflexivity.
+Qed.
+
+Lemma good_accept w q f head : good w -> good (fst (accept_event w q f head)).
+Proof.
+  intros G. eapply good_procs_eq; [|apply accept_event_procs|exact G].
+  pose proof (prim_accept w q f head). apply prims_one. assumption.
+Qed.
+
+Lemma held_pop w pi0 p e0 rest pi e :
+  nth_error (w_pools w) pi0 = Some p -> pl_buffer p = e0 :: rest ->
+  (held pi e (upd_pool w pi0 (mkPool (pl_subs p) (pl_bufsize p) rest (pl_serial p) (pl_procs p))) +
+   ind (Nat.eqb pi0 pi && (e0 =? e)%Z) = held pi e w)%nat.
+Proof.
+  intros N B. destruct (Nat.eqb pi0 pi) eqn:Q.
+  - apply Nat.eqb_eq in Q. subst pi. unfold held, upd_pool. simpl. rewrite (upd_same _ _ _ _ N), N.
+    unfold held_pool. simpl. rewrite B, count_ev_cons. unfold ind. simpl. destruct (e0 =? e); lia.
+  - unfold held, upd_pool. simpl. rewrite upd_other by (apply Nat.eqb_neq in Q; congruence). unfold ind. simpl. lia.
+Qed.
+
+Lemma dispatch_loop_balance pi0 : forall f w wss,
+  good w ->
+  let '(w', o) := dispatch_loop f w pi0 wss in
+  raised o = false -> good w' /\ forall pi e, balanced pi e w o w'.
+Proof.
+  induction f as [|f IH]; intros w wss G; simpl.
+  { intros _. split; [exact G | intros; apply balanced_refl]. }
+  destruct (nth_error (w_pools w) pi0) as [p|] eqn:N.
+  2:{ intros _. split; [exact G|]. intros. unfold balanced, n_offered, n_acked, n_discard, n_eff. simpl. lia. }
+  destruct (pl_buffer p) as [|e0 rest] eqn:B.
+  { intros _. split; [exact G | intros; apply balanced_refl]. }
+  set (p0 := mkPool (pl_subs p) (pl_bufsize p) rest (pl_serial p) (pl_procs p)).
+  assert (G0 : good (upd_pool w pi0 p0)).
+  { destruct G as [C F]. split.
+    - eapply callbacks_ok_prims; [apply prims_one; eapply prim_pop; eassumption | exact C].
+    - unfold procs_of, upd_pool. simpl. rewrite (map_upd pl_procs _ _ _ p N) by reflexivity. exact F. }
+  assert (N0 : nth_error (w_pools (upd_pool w pi0 p0)) pi0 = Some p0) by (simpl; eapply upd_same; exact N).
+  pose proof (dispatch_event_balance (upd_pool w pi0 p0) pi0 e0 (hd [] wss) p0 G0 N0) as DE.
+  pose proof (dispatch_event_facts (upd_pool w pi0 p0) pi0 e0 (hd [] wss) p0 N0) as DF.
+  destruct (dispatch_event (upd_pool w pi0 p0) pi0 e0 (hd [] wss)) as [[w1 o1] r].
+  destruct DE as [G1 [H1 Z1]]. destruct DF as [_ [_ Fr]].
+  destruct r as [[|]|].
+  - destruct Fr as [_ [R1 _]].
+    specialize (IH w1 (tl wss) G1). destruct (dispatch_loop f w1 pi0 (tl wss)) as [w2 o2].
+    rewrite raised_app, R1. simpl. intros R2. destruct (IH R2) as [G2 B2]. split; [exact G2|].
+    intros pi e. specialize (B2 pi e). destruct (H1 pi e) as [H|H]; [|discriminate].
+    pose proof (held_pop w pi0 p e0 rest pi e N B) as HP. fold p0 in HP.
+    destruct (Z1 pi e) as [Za [Zb Zc]].
+    unfold balanced, n_offered, n_acked, n_discard in *. rewrite !n_eff_app. lia.
+  - destruct Fr as [_ [R1 _]].
+    pose proof (accept_event_balance w1 pi0 e0 true) as A.
+    pose proof (good_accept w1 pi0 e0 true G1) as G2.
+    destruct (accept_event w1 pi0 e0 true) as [w2 o2]. simpl in G2.
+    rewrite raised_app, R1. simpl. intros R2. split; [exact G2|].
+    intros pi e. destruct (A pi e R2) as [A1 [A2 A3]]. destruct (H1 pi e) as [H|H]; [|discriminate].
+    pose proof (held_pop w pi0 p e0 rest pi e N B) as HP. fold p0 in HP.
+    destruct (Z1 pi e) as [Za [Zb Zc]].
+    unfold balanced, n_offered, n_acked, n_discard in *. rewrite !n_eff_app, !n_eff_cons. simpl.
+    unfold ind in *. simpl in H. lia.
+  - intros R. rewrite Fr in R. discriminate.
+Qed.
+
+(* ---- single operations *)
+Lemma held_events_irrelevant w tbl pi e :
+  held pi e (mkW (w_pools w) (w_callbacks w) (w_gserial w) tbl (w_maxint w)) = held pi e w.
+Proof. reflexivity. Qed.
+
+Lemma emit_balance w f t :
+  good w ->
+  let '(w', o) := emit w f t in
+  raised o = false -> good w' /\ forall pi e, balanced pi e w o w'.
+Proof.
+  intros G. pose proof (emit_prims w f t) as P. pose proof (emit_procs w f t) as PR.
+  unfold emit in *. destruct (ev_lookup (w_events w) f) eqn:L.
+  { intros _. split; [exact G|]. intros. unfold balanced, n_offered, n_acked, n_discard, n_eff. simpl. lia. }
+  unfold notify in *. simpl in *.
+  pose proof (ev_lookup_snoc (w_events w) (mkEI f t None []) L) as LS. simpl in LS. rewrite LS in *.
+  match goal with |- context [notify_cbs ?c ?ww ?tt ?nn] =>
+    pose proof (fun pi e => notify_cbs_event_balance tt f pi e c ww) as B;
+    destruct (notify_cbs c ww tt nn) as [w' o] end.
+  simpl in *.
+  intros R. split; [eapply good_procs_eq; eassumption|].
+  intros pi e. specialize (B pi e R). unfold balanced in *. exact B.
+Qed.
+
+Definition ans_opt (e : ev) (a : option ev) : nat :=
+  match a with Some f => if f =? e then 1%nat else 0%nat | None => 0%nat end.
+
+Lemma ans_count_answers e ol : ans_count e ol = list_sum (map (ans_opt e) (answers ol)).
+Proof.
+  unfold ans_count. induction ol as [|x ol IH]; [reflexivity|].
+  simpl. rewrite IH. destruct x as [n|a|a|]; simpl; try reflexivity;
+    destruct a; simpl; lia.
+Qed.
+
+Lemma read_event_inflight q data :
+  pinv q ->
+  let '(l', ol) := read_event h maxdig (p_l q) data in
+  pinv (set_l q l') /\ forall e, (inflight_proc e (set_l q l') + ans_count e ol = inflight_proc e q)%nat.
+Proof.
+  intros [W [SI [PZ C]]].
+  assert (Core : forall l0, wf l0 -> slot_inv l0 -> forall a,
+            let '(l', ol) := feed h maxdig l0 a in
+            wf l' /\ slot_inv l' /\ (l_event l0 = None -> l_event l' = None) /\
+            forall e, (ans_opt e (l_event l') + ans_count e ol = ans_opt e (l_event l0))%nat).
+  { intros l0 W0 SI0 a. pose proof (feed_answers h maxdig l0 a W0) as A.
+    pose proof (feed_wf h maxdig l0 a W0) as W'.
+    destruct (feed h maxdig l0 a) as [l' ol]. simpl in W'. destruct A as [A1 [A2 A3]]. specialize (A3 SI0).
+    split; [exact W'|]. split; [exact A3|].
+    unfold slot_inv in *.
+    destruct (is_busy l0) eqn:B0, (is_busy l') eqn:B1.
+    - destruct (A2 eq_refl) as [_ E]. split; [congruence|]. intros e. rewrite ans_count_answers, A1, E. simpl. lia.
+    - split; [intros _; apply A3; reflexivity|]. intros e. rewrite ans_count_answers, A1, (A3 eq_refl). simpl. lia.
+    - destruct (A2 eq_refl). congruence.
+    - split; [intros _; apply A3; reflexivity|]. intros e.
+      rewrite ans_count_answers, A1, (A3 eq_refl), (SI0 eq_refl). simpl. lia. }
+  unfold read_event. destruct data as [|c data].
+  - rewrite feed_eof_as_feed.
+    specialize (Core (mkL (l_state (p_l q)) (l_buf (p_l q)) (l_rlen (p_l q)) (l_result (p_l q)) (l_event (p_l q)) true)).
+    specialize (Core ltac:(destruct (p_l q); exact W) ltac:(destruct (p_l q); exact SI) []).
+    destruct (feed h maxdig _ []) as [l' ol]. destruct Core as [W' [SI' [N E]]]. simpl in N, E.
+    split; [unfold pinv; simpl; repeat split; auto|]. intros e. unfold inflight_proc. simpl. apply E.
+  - specialize (Core (p_l q) W SI (c :: data)). destruct (feed h maxdig (p_l q) (c :: data)) as [l' ol].
+    destruct Core as [W' [SI' [N E]]].
+    split; [unfold pinv; simpl; repeat split; auto|]. intros e. unfold inflight_proc. simpl. apply E.
+Qed.
+
+Lemma get_proc_after w w' pi i p q :
+  procs_of w' = procs_of w -> get_proc w pi i = Some (p, q) -> exists p', get_proc w' pi i = Some (p', q).
+Proof.
+  unfold get_proc, procs_of. intros E.
+  destruct (nth_error (w_pools w) pi) as [p0|] eqn:N; [|discriminate].
+  destruct (nth_error (pl_procs p0) i) as [q0|] eqn:Ni; [|discriminate]. intros H. inversion H; subst.
+  assert (M : nth_error (map pl_procs (w_pools w')) pi = Some (pl_procs p)).
+  { rewrite E. apply map_nth_error. exact N. }
+  destruct (nth_error (w_pools w') pi) as [p1|] eqn:N1.
+  - rewrite (map_nth_error pl_procs _ _ N1) in M. inversion M as [M']. rewrite M', Ni. eauto.
+  - apply nth_error_None in N1. assert (nth_error (map pl_procs (w_pools w')) pi = None)
+      by (apply nth_error_None; rewrite map_length; exact N1). congruence.
+Qed.
+
+Lemma get_proc_set w pi i p q q' :
+  get_proc w pi i = Some (p, q) -> exists p', get_proc (set_proc w pi i q') pi i = Some (p', q').
+Proof.
+  unfold get_proc, set_proc. destruct (nth_error (w_pools w) pi) as [p0|] eqn:N; [|discriminate].
+  destruct (nth_error (pl_procs p0) i) as [q0|] eqn:Ni; [|discriminate]. intros _.
+  unfold upd_pool. simpl. rewrite (upd_same _ _ _ _ N). simpl. rewrite (upd_same _ _ _ _ Ni). eauto.
+Qed.
+
+(* replacing a listener record: `held` changes by the change of its slot *)
+Lemma set_proc_step w pi0 i p q q' :
+  good w -> get_proc w pi0 i = Some (p, q) -> pinv q' ->
+  good (set_proc w pi0 i q') /\
+  forall pi e, (held pi e (set_proc w pi0 i q') + ind (Nat.eqb pi0 pi) * inflight_proc e q =
+                held pi e w + ind (Nat.eqb pi0 pi) * inflight_proc e q')%nat.
+Proof.
+  intros G GP Iq. split; [eapply good_set_proc; eassumption|].
+  intros pi e. destruct (Nat.eqb pi0 pi) eqn:Q.
+  - apply Nat.eqb_eq in Q. subst pi. pose proof (held_set_proc_same w pi0 i p q q' e GP). unfold ind. lia.
+  - rewrite held_set_proc_other by (apply Nat.eqb_neq in Q; congruence). unfold ind. lia.
+Qed.
+
+Lemma balanced_nil pi e w w' : held pi e w' = held pi e w -> balanced pi e w [] w'.
+Proof. intros E. unfold balanced, n_offered, n_acked, n_discard, n_eff. simpl. lia. Qed.
+
+Lemma balanced_inapp pi e w : balanced pi e w [EInapplicable] w.
+Proof. unfold balanced, n_offered, n_acked, n_discard, n_eff. simpl. lia. Qed.
+
+Lemma route_outs_procs pi0 i : forall ol w1, procs_of (fst (route_outs w1 pi0 i ol)) = procs_of w1.
+Proof.
+  induction ol as [|x r IH]; intros w1; simpl; [reflexivity|].
+  assert (Q : procs_of (fst (match x with
+               | ORejected e => let '(w', o') := notify w1 (NRejected pi0 i e) in (w', ERejected pi0 i e :: o')
+               | OProcessed (Some e) => (w1, [EAcked pi0 i e])
+               | OCrash => (w1, [ERaise])
+               | _ => (w1, [])
+               end)) = procs_of w1).
+  { destruct x as [n|a|a|]; try reflexivity.
+    - pose proof (notify_procs w1 (NRejected pi0 i a)) as Q. destruct (notify w1 (NRejected pi0 i a)). exact Q.
+    - destruct a; reflexivity. }
+  destruct (match x with
+            | ORejected e => let '(w', o') := notify w1 (NRejected pi0 i e) in (w', ERejected pi0 i e :: o')
+            | OProcessed (Some e) => (w1, [EAcked pi0 i e])
+            | OCrash => (w1, [ERaise])
+            | _ => (w1, [])
+            end) as [w2 o2]. simpl in Q.
+  specialize (IH w2). destruct (route_outs w2 pi0 i r) as [w3 o3]. simpl in *. congruence.
+Qed.
+
+(* a listener's stdout is read and its answers are routed *)
+Lemma feed_step_balance w pi0 i p q data :
+  good w -> get_proc w pi0 i = Some (p, q) ->
+  let '(l', ol) := read_event h maxdig (p_l q) data in
+  let '(w', o) := route_outs (set_proc w pi0 i (set_l q l')) pi0 i ol in
+  raised o = false -> good w' /\ forall pi e, balanced pi e w o w'.
+Proof.
+  intros G GP. pose proof (get_proc_pinv w pi0 i p q G GP) as Iq.
+  pose proof (read_event_inflight q data Iq) as RI.
+  destruct (read_event h maxdig (p_l q) data) as [l' ol]. destruct RI as [Iq' E].
+  destruct (set_proc_step w pi0 i p q (set_l q l') G GP Iq') as [G1 H1].
+  set (w1 := set_proc w pi0 i (set_l q l')) in *.
+  assert (Lt : (pi0 < length (w_pools w1))%nat).
+  { unfold w1. rewrite (prims_length _ _ (set_proc_prims w pi0 i (set_l q l'))). eapply get_proc_lt. exact GP. }
+  pose proof (route_outs_prims pi0 i ol w1) as P. pose proof (fun pi e => route_outs_balance pi0 i pi e ol w1 (proj1 G1) Lt) as RB.
+  pose proof (route_outs_procs pi0 i ol w1) as PR.
+  destruct (route_outs w1 pi0 i ol) as [w' o]. simpl in P, PR.
+  intros R. split; [eapply good_procs_eq; eassumption|].
+  intros pi e. destruct (RB pi e R) as [B1 B2]. specialize (H1 pi e). specialize (E e).
+  unfold balanced. unfold ind in *. destruct (Nat.eqb pi0 pi); lia.
+Qed.
+
+Lemma emit_get_proc w f t pi i p q :
+  get_proc w pi i = Some (p, q) -> exists p', get_proc (fst (emit w f t)) pi i = Some (p', q).
+Proof. intros GP. eapply get_proc_after; [apply emit_procs | exact GP]. Qed.
+
+Lemma raised_single_inapp : raised [EInapplicable] = false. Proof. reflexivity. Qed.
+
+(* replace a listener by one with the same event slot *)
+Lemma same_slot_step w pi0 i p q q' :
+  good w -> get_proc w pi0 i = Some (p, q) -> pinv q' -> l_event (p_l q') = l_event (p_l q) ->
+  good (set_proc w pi0 i q') /\ forall pi e, held pi e (set_proc w pi0 i q') = held pi e w.
+Proof.
+  intros G GP Iq E. destruct (set_proc_step w pi0 i p q q' G GP Iq) as [G1 H1]. split; [exact G1|].
+  intros pi e. specialize (H1 pi e). unfold inflight_proc in H1. rewrite E in H1. lia.
+Qed.
+
+Lemma wstep_noloss w op :
+  good w ->
+  let '(w', o) := wstep h maxdig w op in
+  raised o = false -> good w' /\ forall pi e, balanced pi e w o w'.
+Proof.
+  intros G.
+  assert (Inapp : raised [EInapplicable] = false -> good w /\ forall pi e, balanced pi e w [EInapplicable] w).
+  { intros _. split; [exact G | intros; apply balanced_inapp]. }
+  destruct op as [f t|pi0 i data|pi0 i wr|pi0 i pid e1|pi0 i e1|pi0 i e1|pi0 i last wr e1 e2|pi0 wss|pi0 wss]; unfold wstep.
+  - (* WEmit *) apply emit_balance. exact G.
+  - (* WFeed *)
+    destruct (get_proc w pi0 i) as [[p q]|] eqn:GP; [|exact Inapp].
+    destruct (l_closed (p_l q)); [exact Inapp|].
+    pose proof (feed_step_balance w pi0 i p q data G GP) as FB.
+    destruct (read_event h maxdig (p_l q) data) as [l' ol]. exact FB.
+  - (* WWritable *)
+    destruct (get_proc w pi0 i) as [[p q]|] eqn:GP; [|exact Inapp].
+    pose proof (get_proc_pinv w pi0 i p q G GP) as Iq.
+    pose proof (proc_step_inv h maxdig i q (PWritable wr) Iq) as PI. unfold Proc.proc_step in PI.
+    pose proof (write_event_l q wr) as [L _].
+    destruct (write_event q wr) as [q' r]. simpl in L.
+    destruct r; try (simpl; discriminate);
+      destruct PI as [Iq' _];
+      destruct (same_slot_step w pi0 i p q q' G GP Iq' ltac:(rewrite L; reflexivity)) as [G1 H1];
+      intros _; (split; [exact G1 | intros pi e; apply balanced_nil; apply H1]).
+  - (* WSpawn *)
+    destruct (get_proc w pi0 i) as [[p q]|] eqn:GP; [|exact Inapp].
+    pose proof (get_proc_pinv w pi0 i p q G GP) as Iq.
+    pose proof (proc_step_inv h maxdig i q (PSpawn pid) Iq) as PI. unfold Proc.proc_step in *.
+    destruct ((p_pid q =? 0) && negb (pid =? 0) &&
+              match p_state q with PS_EXITED | PS_FATAL | PS_BACKOFF | PS_STOPPED => true | _ => false end) eqn:Gd;
+      [|exact Inapp].
+    destruct PI as [Iq' _].
+    pose proof (emit_balance w e1 T_ProcessStateStartingEvent G) as EB.
+    destruct (emit_get_proc w e1 T_ProcessStateStartingEvent pi0 i p q GP) as [p1 GP1].
+    destruct (emit w e1 T_ProcessStateStartingEvent) as [w1 o1]. simpl in GP1.
+    intros R. destruct (EB R) as [G1 B1].
+    assert (Ev : l_event (p_l (mkP PS_STARTING pid false fresh_listener true [] false [] false [])) = l_event (p_l q)).
+    { destruct Iq as [_ [_ [PZ _]]]. rewrite PZ by lia. reflexivity. }
+    destruct (same_slot_step w1 pi0 i p1 q _ G1 GP1 Iq' Ev) as [G2 H2].
+    split; [exact G2|]. intros pi e. specialize (B1 pi e). unfold balanced in *. rewrite H2. exact B1.
+  - (* WRunning *)
+    destruct (get_proc w pi0 i) as [[p q]|] eqn:GP; [|exact Inapp].
+    pose proof (get_proc_pinv w pi0 i p q G GP) as Iq.
+    pose proof (proc_step_inv h maxdig i q PRunning Iq) as PI. unfold Proc.proc_step in *.
+    destruct (pstate_eqb (p_state q) PS_STARTING && negb (p_pid q =? 0)); [|exact Inapp].
+    destruct PI as [Iq' _].
+    destruct (same_slot_step w pi0 i p q _ G GP Iq' eq_refl) as [G1 H1].
+    match goal with |- context [emit ?ww ?ee ?tt] => pose proof (emit_balance ww ee tt G1) as EB; destruct (emit ww ee tt) as [w2 o2] end.
+    intros R. destruct (EB R) as [G2 B2]. split; [exact G2|].
+    intros pi e. specialize (B2 pi e). unfold balanced in *. rewrite H1 in B2. exact B2.
+  - (* WStop *)
+    destruct (get_proc w pi0 i) as [[p q]|] eqn:GP; [|exact Inapp].
+    pose proof (get_proc_pinv w pi0 i p q G GP) as Iq.
+    pose proof (proc_step_inv h maxdig i q PStop Iq) as PI. unfold Proc.proc_step in *.
+    destruct (negb (p_pid q =? 0) && match p_state q with PS_RUNNING | PS_STARTING => true | _ => false end); [|exact Inapp].
+    destruct PI as [Iq' _].
+    destruct (same_slot_step w pi0 i p q _ G GP Iq' eq_refl) as [G1 H1].
+    match goal with |- context [emit ?ww ?ee ?tt] => pose proof (emit_balance ww ee tt G1) as EB; destruct (emit ww ee tt) as [w2 o2] end.
+    intros R. destruct (EB R) as [G2 B2]. split; [exact G2|].
+    intros pi e. specialize (B2 pi e). unfold balanced in *. rewrite H1 in B2. exact B2.
+  - (* WFinish *)
+    destruct (get_proc w pi0 i) as [[p q]|] eqn:GP; [|exact Inapp].
+    pose proof (get_proc_pinv w pi0 i p q G GP) as Iq.
+    match goal with |- context [if negb ?g then _ else _] => destruct g eqn:Gd end; simpl negb; cbv iota; [|exact Inapp].
+    (* drain: stdout *)
+    assert (Drain : let '(l1, o1) := if l_closed (p_l q) then (p_l q, []) else read_event h maxdig (p_l q) last in
+                    let '(w1, f1) := route_outs (set_proc w pi0 i (set_l q l1)) pi0 i o1 in
+                    raised f1 = false ->
+                    good w1 /\ (forall pi e, balanced pi e w f1 w1) /\ pinv (set_l q l1) /\
+                    exists p1, get_proc w1 pi0 i = Some (p1, set_l q l1)).
+    { destruct (l_closed (p_l q)).
+      - simpl. intros _.
+        assert (Iq1 : pinv (set_l q (p_l q))) by (destruct Iq as [A [B [C D]]]; repeat split; assumption).
+        destruct (same_slot_step w pi0 i p q (set_l q (p_l q)) G GP Iq1 eq_refl) as [G1 H1].
+        split; [exact G1|]. split; [intros pi e; apply balanced_nil; apply H1|]. split; [exact Iq1|].
+        eapply get_proc_set. exact GP.
+      - pose proof (feed_step_balance w pi0 i p q last G GP) as FB.
+        pose proof (read_event_inflight q last Iq) as RI.
+        destruct (read_event h maxdig (p_l q) last) as [l1 o1]. destruct RI as [Iq1 _].
+        pose proof (route_outs_procs pi0 i o1 (set_proc w pi0 i (set_l q l1))) as PR.
+        destruct (route_outs (set_proc w pi0 i (set_l q l1)) pi0 i o1) as [w1 f1]. simpl in PR.
+        intros R. destruct (FB R) as [G1 B1]. split; [exact G1|]. split; [exact B1|]. split; [exact Iq1|].
+        destruct (get_proc_set w pi0 i p q (set_l q l1) GP) as [pa GPa].
+        eapply get_proc_after; [exact PR | exact GPa]. }
+    destruct (if l_closed (p_l q) then (p_l q, []) else read_event h maxdig (p_l q) last) as [l1 o1].
+    destruct (route_outs (set_proc w pi0 i (set_l q l1)) pi0 i o1) as [w1 f1].
+    (* drain: stdin *)
+    pose proof (proc_step_inv h maxdig i (set_l q l1) (PWritable wr)) as PI. unfold Proc.proc_step in PI.
+    pose proof (write_event_l (set_l q l1) wr) as [L2 P2].
+    destruct (write_event (set_l q l1) wr) as [q2 r]. simpl in L2, P2.
+    assert (Rest : r <> FErr ->
+      let w2 := set_proc w1 pi0 i q2 in
+      let '(w3, f3) := if p_killing q then emit w2 e1 T_ProcessStateStoppedEvent
+                       else if pstate_eqb (p_state q) PS_STARTING
+                            then seq (emit w2 e1 T_ProcessStateRunningEvent) (fun w' => emit w' e2 T_ProcessStateExitedEvent)
+                            else emit w2 e2 T_ProcessStateExitedEvent in
+      let q3 := mkP (if p_killing q then PS_STOPPED else PS_EXITED) 0 false
+                    (mkL (l_state (p_l q2)) [] None [] None true) false [] true
+                    (p_accepted q2) (p_broken q2) (p_envs q2) in
+      let w4 := set_proc w3 pi0 i q3 in
+      let '(w5, f5) := match l_event (p_l q2) with
+                       | Some e => let '(w5, f5) := notify w4 (NRejected pi0 i (Some e)) in
+                                   (w5, f1 ++ f3 ++ ERejected pi0 i (Some e) :: f5)
+                       | None => (w4, f1 ++ f3)
+                       end in
+      raised f5 = false -> good w5 /\ forall pi e, balanced pi e w f5 w5).
+    { intros NE.
+      assert (Hf1 : forall X, raised (f1 ++ X) = false -> raised f1 = false)
+        by (intros X HX; rewrite raised_app in HX; apply orb_false_iff in HX; tauto).
+      cbv zeta.
+      (* everything after the drain, given the drain facts *)
+      assert (After : raised f1 = false ->
+        let w2 := set_proc w1 pi0 i q2 in
+        good w2 /\ (forall pi e, balanced pi e w f1 w2) /\ pinv q2 /\ exists p2, get_proc w2 pi0 i = Some (p2, q2)).
+      { intros R1. destruct (Drain R1) as [G1 [B1 [Iq1 [p1 GP1]]]].
+        assert (Iq2 : pinv q2) by (destruct r; try (exact (proj1 (PI Iq1))); contradiction NE; reflexivity).
+        destruct (same_slot_step w1 pi0 i p1 (set_l q l1) q2 G1 GP1 Iq2 ltac:(rewrite L2; reflexivity)) as [G2 H2].
+        split; [exact G2|]. split.
+        - intros pi e. specialize (B1 pi e). unfold balanced in *. rewrite H2. exact B1.
+        - split; [exact Iq2 | eapply get_proc_set; exact GP1]. }
+      set (w2 := set_proc w1 pi0 i q2) in *.
+      (* the state-change notifications *)
+      assert (Emits : forall (ww : world), good ww -> (exists pp, get_proc ww pi0 i = Some (pp, q2)) ->
+        let '(w3, f3) := if p_killing q then emit ww e1 T_ProcessStateStoppedEvent
+                         else if pstate_eqb (p_state q) PS_STARTING
+                              then seq (emit ww e1 T_ProcessStateRunningEvent) (fun w' => emit w' e2 T_ProcessStateExitedEvent)
+                              else emit ww e2 T_ProcessStateExitedEvent in
+        raised f3 = false -> good w3 /\ (forall pi e, balanced pi e ww f3 w3) /\ exists p3, get_proc w3 pi0 i = Some (p3, q2)).
+      { intros ww Gw [pp GPw].
+        assert (One : forall ee tt, let '(w3, f3) := emit ww ee tt in
+                  raised f3 = false -> good w3 /\ (forall pi e, balanced pi e ww f3 w3) /\ exists p3, get_proc w3 pi0 i = Some (p3, q2)).
+        { intros ee tt. pose proof (emit_balance ww ee tt Gw) as EB.
+          destruct (emit_get_proc ww ee tt pi0 i pp q2 GPw) as [p3 GP3].
+          destruct (emit ww ee tt) as [w3 f3]. simpl in GP3. intros R. destruct (EB R). eauto. }
+        destruct (p_killing q); [apply One|].
+        destruct (pstate_eqb (p_state q) PS_STARTING); [|apply One].
+        unfold seq. specialize (One e1 T_ProcessStateRunningEvent).
+        destruct (emit ww e1 T_ProcessStateRunningEvent) as [wa fa].
+        pose proof (fun Ga => emit_balance wa e2 T_ProcessStateExitedEvent Ga) as EB2.
+        pose proof (fun pa GPa => emit_get_proc wa e2 T_ProcessStateExitedEvent pi0 i pa q2 GPa) as EG2.
+        destruct (emit wa e2 T_ProcessStateExitedEvent) as [wb fb]. simpl in EG2.
+        rewrite raised_app. intros R. apply orb_false_iff in R. destruct R as [Ra Rb].
+        destruct (One Ra) as [Ga [Ba [pa GPa]]]. destruct (EB2 Ga Rb) as [Gb Bb].
+        split; [exact Gb|]. split; [intros pi e; eapply balanced_trans; [apply Ba | apply Bb]|].
+        eapply EG2. exact GPa. }
+      specialize (Emits w2).
+      destruct (if p_killing q then emit w2 e1 T_ProcessStateStoppedEvent
+                else if pstate_eqb (p_state q) PS_STARTING
+                     then seq (emit w2 e1 T_ProcessStateRunningEvent) (fun w' => emit w' e2 T_ProcessStateExitedEvent)
+                     else emit w2 e2 T_ProcessStateExitedEvent) as [w3 f3].
+      set (q3 := mkP (if p_killing q then PS_STOPPED else PS_EXITED) 0 false
+                     (mkL (l_state (p_l q2)) [] None [] None true) false [] true
+                     (p_accepted q2) (p_broken q2) (p_envs q2)).
+      (* common tail: the listener record is replaced by the dead one *)
+      assert (Dead : raised f1 = false -> raised f3 = false ->
+                good (set_proc w3 pi0 i q3) /\
+                (forall pi e, (n_offered pi e (f1 ++ f3) + held pi e w =
+                               held pi e (set_proc w3 pi0 i q3) + ind (Nat.eqb pi0 pi) * inflight_proc e q2 +
+                               n_acked pi e (f1 ++ f3) + n_discard pi e (f1 ++ f3))%nat) /\
+                (pi0 < length (w_pools (set_proc w3 pi0 i q3)))%nat).
+      { intros R1 R3. destruct (After R1) as [G2 [B2 [Iq2 GP2]]].
+        destruct (Emits G2 GP2 R3) as [G3 [B3 [p3 GP3]]].
+        assert (Iq3 : pinv q3).
+        { destruct Iq2 as [_ [_ [_ C2]]]. unfold pinv, q3, contig, wf, slot_inv in *; simpl. repeat split; auto.
+          destruct (p_iclosed q2); [exact C2 | exists (p_ibuf q2); exact C2]. }
+        destruct (set_proc_step w3 pi0 i p3 q2 q3 G3 GP3 Iq3) as [G4 H4].
+        split; [exact G4|]. split.
+        - intros pi e. specialize (B2 pi e). specialize (B3 pi e). specialize (H4 pi e).
+          unfold balanced, n_offered, n_acked, n_discard in *. rewrite !n_eff_app.
+          assert (Z3 : inflight_proc e q3 = 0%nat) by reflexivity. rewrite Z3 in H4. lia.
+        - rewrite (prims_length _ _ (set_proc_prims w3 pi0 i q3)). eapply get_proc_lt. exact GP3. }
+      destruct (l_event (p_l q2)) as [ev|] eqn:Ev.
+      + pose proof (fun CB Lt pi e => notify_rejected_balance (set_proc w3 pi0 i q3) pi0 i ev pi e CB Lt) as NB.
+        pose proof (notify_prims (set_proc w3 pi0 i q3) (NRejected pi0 i (Some ev))) as NP.
+        pose proof (notify_procs (set_proc w3 pi0 i q3) (NRejected pi0 i (Some ev))) as NPr.
+        destruct (notify (set_proc w3 pi0 i q3) (NRejected pi0 i (Some ev))) as [w5 f5]. simpl in NP, NPr.
+        rewrite !raised_app. simpl. intros R.
+        apply orb_false_iff in R. destruct R as [R1 R]. apply orb_false_iff in R. destruct R as [R3 R5].
+        destruct (Dead R1 R3) as [G4 [E4 Lt4]].
+        split; [eapply good_procs_eq; eassumption|].
+        intros pi e. destruct (NB (proj1 G4) Lt4 pi e R5) as [N1 [N2 N3]]. specialize (E4 pi e).
+        unfold balanced, n_offered, n_acked, n_discard in *. rewrite !n_eff_app, !n_eff_cons in *. simpl.
+        rewrite ?n_eff_app in E4.
+        unfold inflight_proc in E4. rewrite Ev in E4. unfold ind in *.
+        destruct (Nat.eqb pi0 pi); destruct (ev =? e); simpl in *; lia.
+      + rewrite raised_app. intros R. apply orb_false_iff in R. destruct R as [R1 R3].
+        destruct (Dead R1 R3) as [G4 [E4 _]]. split; [exact G4|].
+        intros pi e. specialize (E4 pi e). unfold inflight_proc in E4. rewrite Ev in E4.
+        unfold balanced. lia. }
+    destruct r.
+    + pose proof (Rest ltac:(discriminate)) as RR. cbv zeta in RR.
+      match goal with |- context [if p_killing q then ?a else ?b] =>
+        destruct (if p_killing q then a else b) as [w3 f3] end.
+      destruct (l_event (p_l q2)) as [ev|];
+        [match goal with |- context [notify ?ww ?nn] => destruct (notify ww nn) as [w5 f5] end; exact RR | exact RR].
+    + pose proof (Rest ltac:(discriminate)) as RR. cbv zeta in RR.
+      match goal with |- context [if p_killing q then ?a else ?b] =>
+        destruct (if p_killing q then a else b) as [w3 f3] end.
+      destruct (l_event (p_l q2)) as [ev|];
+        [match goal with |- context [notify ?ww ?nn] => destruct (notify ww nn) as [w5 f5] end; exact RR | exact RR].
+    + rewrite raised_app. simpl. rewrite orb_true_r. discriminate.
+  - (* WDispatch *)
+    unfold dispatch. destruct (nth_error (w_pools w) pi0) as [p|]; [|exact Inapp].
+    apply dispatch_loop_balance. exact G.
+  - (* WTransition *)
+    destruct (nth_error (w_pools w) pi0) as [p|] eqn:N; [|exact Inapp].
+    destruct (dispatch_capable p).
+    + unfold dispatch. rewrite N. apply dispatch_loop_balance. exact G.
+    + intros _. split; [exact G | intros; apply balanced_refl].
+Qed.
+
+(* no loss, over whole histories *)
+Theorem wrun_noloss : forall ops w,
+  good w ->
+  let '(w', o) := wrun h maxdig w ops in
+  raised o = false -> good w' /\ forall pi e, balanced pi e w o w'.
+Proof.
+  induction ops as [|op r IH]; intros w G; simpl.
+  - intros _. split; [exact G | intros; apply balanced_refl].
+  - pose proof (wstep_noloss w op G) as S1. destruct (wstep h maxdig w op) as [w1 o1].
+    pose proof (fun G1 => IH w1 G1) as S2. destruct (wrun h maxdig w1 r) as [w2 o2].
+    rewrite raised_app. intros R. apply orb_false_iff in R. destruct R as [R1 R2].
+    destruct (S1 R1) as [G1 B1]. destruct (S2 G1 R2) as [G2 B2].
+    split; [exact G2 | intros pi e; eapply balanced_trans; [apply B1 | apply B2]].
+Qed.
+
+End NoLoss.
+
+Lemma good_new cfgs maxint gs :
+  good (new_world (map pool_of_cfg cfgs) maxint gs).
+Proof.
+  split; [reflexivity|]. unfold procs_of, new_world. simpl. rewrite map_map.
+  apply Forall_forall. intros l Hl. apply in_map_iff in Hl. destruct Hl as [[[[subs bs] n] ser] [E _]].
+  subst l. simpl. apply Forall_forall. intros q Hq. apply repeat_spec in Hq. subst q. apply pinv_proc0.
+Qed.
+
+Lemma held_new cfgs maxint gs pi e : held pi e (new_world (map pool_of_cfg cfgs) maxint gs) = 0%nat.
+Proof.
+  unfold held, new_world. simpl. destruct (nth_error (map pool_of_cfg cfgs) pi) as [p|] eqn:N; [|reflexivity].
+  apply nth_error_In in N. apply in_map_iff in N. destruct N as [[[[subs bs] n] ser] [E _]]. subst p.
+  unfold held_pool. simpl. unfold inflight_procs. induction n as [|n IH]; simpl; [reflexivity | exact IH].
+Qed.
+
+(* From freshly constructed pools, over any history in which no exception
+   escaped: what pool pi accepted of event e is exactly what it still buffers,
+   what is in flight at one of its listeners, what was acknowledged OK and what
+   overflow discarded. *)
+Theorem no_loss_always (h : handler) (maxdig : Z) cfgs maxint gs ops pi e :
+  let '(w', o) := wrun h maxdig (new_world (map pool_of_cfg cfgs) maxint gs) ops in
+  raised o = false ->
+  n_offered pi e o = (held pi e w' + n_acked pi e o + n_discard pi e o)%nat.
+Proof.
+  pose proof (wrun_noloss h maxdig ops _ (good_new cfgs maxint gs)) as N.
+  destruct (wrun h maxdig (new_world (map pool_of_cfg cfgs) maxint gs) ops) as [w' o].
+  intros R. destruct (N R) as [_ B]. specialize (B pi e). unfold balanced in B.
+  rewrite held_new in B. lia.
+Qed.
+
+(* ---- examples: the statements above apply to non-trivial histories *)
+Definition ex_cfgs : list pcfg :=
+  [([T_ProcessStateEvent; T_ProcessStateRunningEvent], 2, 1%nat, -1); ([T_Event], 1, 1%nat, -1)].
+Definition ex_ops : list wop :=
+  [WSpawn 0 0 101 1; WRunning 0 0 2; WFeed 0 0 [82; 69; 65; 68; 89; 10];
+   WEmit 3 T_Tick5Event; WEmit 4 T_ProcessStateRunningEvent; WTransition 0 [];
+   WFeed 0 0 [82; 69; 83; 85; 76; 84; 32; 52; 10; 70; 65; 73; 76]; WEmit 5 T_Tick60Event].
+
+Example ex_history_effects :
+  snd (wrun default_handler 4300 (new_world (map pool_of_cfg ex_cfgs) 100 (-1)) ex_ops) =
+  [EOffered 0 1; EOffered 1 1; EOffered 0 2; EOffered 1 2; EDiscard 1 1;
+   EOffered 1 3; EDiscard 1 2; EOffered 0 4; EDiscard 0 1; EOffered 1 4; EDiscard 1 3;
+   ESent 0 0 2 1 1 T_ProcessStateRunningEvent; ERebuffered 0 4;
+   ERejected 0 0 (Some 2); ERebuffered 0 2; EOffered 1 5; EDiscard 1 4].
+Proof. vm_compute. reflexivity. Qed.
+
+Example ex_routing_type_and_supertype :
+  offered_count 0 9 (snd (emit (new_world (map pool_of_cfg ex_cfgs) 100 (-1)) 9 T_ProcessStateRunningEvent)) = 1%nat /\
+  offered_count 0 9 (snd (emit (new_world (map pool_of_cfg ex_cfgs) 100 (-1)) 9 T_Tick5Event)) = 0%nat.
+Proof. split; vm_compute; reflexivity. Qed.
+
+Example ex_serial_wrap : new_serial 100 100 = 0 /\ new_serial 100 7 = 8.
+Proof. split; reflexivity. Qed.
+
+Theorem dispatch_sends_queue_prefix w pi wss p :
+  nth_error (w_pools w) pi = Some p -> pool_bound p ->
+  let '(w', o) := dispatch w pi wss in
+  raised o = false ->
+  exists p', nth_error (w_pools w') pi = Some p' /\ pl_buffer p = sent_of o ++ pl_buffer p'.
+Proof.
+  intros N B. unfold dispatch. rewrite N. apply dispatch_fifo; [exact N | exact B | lia].
+Qed.
+
+(* =============================================== pool serials over histories *)
+Definition pserials (pi : nat) (tbl : list evinfo) : list Z :=
+  flat_map (fun x => match ps_lookup (ei_pserials x) pi with Some s => [s] | None => [] end) tbl.
+
+(* While pool pi has numbered at most maxint+1 events (counting from a fresh
+   pool), the numbers it handed out are exactly 0 .. n-1, all different, and its
+   counter is n-1: so the next first-time acceptance gets n
+   (c09_poolserial_monotone_partial), i.e. poolserials increase in acceptance order. *)
+Definition pserial_inv (pi : nat) (w : world) : Prop :=
+  NoDup (map ei_id (w_events w)) /\
+  match nth_error (w_pools w) pi with
+  | None => True
+  | Some p =>
+    Z.of_nat (length (pserials pi (w_events w))) <= w_maxint w + 1 ->
+    pl_serial p = Z.of_nat (length (pserials pi (w_events w))) - 1 /\
+    NoDup (pserials pi (w_events w)) /\
+    forall s, In s (pserials pi (w_events w)) -> 0 <= s <= pl_serial p
+  end.
+
+Lemma pserials_app pi a b : pserials pi (a ++ b) = pserials pi a ++ pserials pi b.
+Proof. unfold pserials. apply flat_map_app. Qed.
+
+Lemma ps_lookup_snoc_same l pi s : ps_lookup l pi = None -> ps_lookup (l ++ [(pi, s)]) pi = Some s.
+Proof.
+  induction l as [|[k v] l IH]; simpl; [rewrite Nat.eqb_refl; reflexivity|].
+  destruct (Nat.eqb k pi); [discriminate | exact IH].
+Qed.
+Lemma ps_lookup_snoc_other l q pi s : q <> pi -> ps_lookup (l ++ [(q, s)]) pi = ps_lookup l pi.
+Proof.
+  intros NE. induction l as [|[k v] l IH]; simpl.
+  - destruct (Nat.eqb q pi) eqn:E; [apply Nat.eqb_eq in E; contradiction | reflexivity].
+  - destruct (Nat.eqb k pi); [reflexivity | exact IH].
+Qed.
+
+Lemma ev_update_pserials_same pi tbl x x' :
+  ev_lookup tbl (ei_id x') = Some x -> ps_lookup (ei_pserials x') pi = ps_lookup (ei_pserials x) pi ->
+  pserials pi (ev_update tbl x') = pserials pi tbl.
+Proof.
+  induction tbl as [|y tbl IH]; simpl; [discriminate|].
+  destruct (ei_id y =? ei_id x') eqn:E; intros L S.
+  - inversion L; subst. unfold pserials. simpl. rewrite S. reflexivity.
+  - unfold pserials in *. simpl. rewrite (IH L S). reflexivity.
+Qed.
+
+Lemma ev_update_pserials_new pi tbl x x' s :
+  ev_lookup tbl (ei_id x') = Some x -> ps_lookup (ei_pserials x) pi = None ->
+  ps_lookup (ei_pserials x') pi = Some s ->
+  exists a b, pserials pi tbl = a ++ b /\ pserials pi (ev_update tbl x') = a ++ s :: b.
+Proof.
+  induction tbl as [|y tbl IH]; simpl; [discriminate|].
+  destruct (ei_id y =? ei_id x') eqn:E; intros L S S'.
+  - inversion L; subst. exists [], (pserials pi tbl). unfold pserials. simpl. rewrite S, S'. split; reflexivity.
+  - destruct (IH L S S') as [a [b [A B]]].
+    exists ((match ps_lookup (ei_pserials y) pi with Some s0 => [s0] | None => [] end) ++ a), b.
+    unfold pserials in *. simpl. rewrite A, B, <- !app_assoc. split; reflexivity.
+Qed.
+
+Lemma prim_pserial_inv pi w w' : prim w w' -> pserial_inv pi w -> pserial_inv pi w'.
+Proof.
+  intros P [ND I]. destruct P as [w q e head|w q p procs' N|w q p e rest N B|w e t FR].
+  - (* _acceptEvent of pool q *)
+    unfold accept_event. destruct (nth_error (w_pools w) q) as [p|] eqn:N; [|split; assumption].
+    destruct (ev_lookup (w_events w) e) as [x|] eqn:L; [|split; assumption].
+    destruct (ev_lookup_In _ _ _ L) as [_ Idx].
+    assert (Shape : forall gs ser buf',
+      match ps_lookup (ei_pserials x) q with
+      | Some _ => pserial_inv pi (mkW (upd (w_pools w) q (mkPool (pl_subs p) (pl_bufsize p) buf' (pl_serial p) (pl_procs p)))
+                                      (w_callbacks w) gs
+                                      (ev_update (w_events w) (mkEI (ei_id x) (ei_type x) (Some ser) (ei_pserials x))) (w_maxint w))
+      | None => pserial_inv pi (mkW (upd (w_pools w) q (mkPool (pl_subs p) (pl_bufsize p) buf'
+                                                              (new_serial (w_maxint w) (pl_serial p)) (pl_procs p)))
+                                    (w_callbacks w) gs
+                                    (ev_update (w_events w) (mkEI (ei_id x) (ei_type x) (Some ser)
+                                       (ei_pserials x ++ [(q, new_serial (w_maxint w) (pl_serial p))]))) (w_maxint w))
+      end).
+    { intros gs ser buf'. destruct (ps_lookup (ei_pserials x) q) as [s0|] eqn:PS.
+      - (* already numbered by q: nothing changes for any pool *)
+        unfold pserial_inv; simpl. rewrite ev_update_ids. split; [exact ND|].
+        rewrite (ev_update_pserials_same pi (w_events w) x _) by (first [simpl; rewrite Idx; exact L | reflexivity]).
+        destruct (Nat.eq_dec q pi) as [->|NE].
+        + rewrite (upd_same _ _ _ _ N). rewrite N in I. simpl. exact I.
+        + rewrite upd_other by exact NE. exact I.
+      - destruct (Nat.eq_dec q pi) as [->|NE].
+        + (* pool pi numbers the event *)
+          set (s := new_serial (w_maxint w) (pl_serial p)).
+          destruct (ev_update_pserials_new pi (w_events w) x
+                      (mkEI (ei_id x) (ei_type x) (Some ser) (ei_pserials x ++ [(pi, s)])) s) as [a [b [A B']]];
+            [simpl; rewrite Idx; exact L | exact PS | simpl; apply ps_lookup_snoc_same; exact PS|].
+          unfold pserial_inv; simpl. rewrite ev_update_ids. split; [exact ND|].
+          rewrite (upd_same _ _ _ _ N). simpl. rewrite B'. rewrite N in I. intros Len.
+          rewrite app_length in Len. simpl in Len.
+          assert (Len0 : Z.of_nat (length (pserials pi (w_events w))) <= w_maxint w + 1) by (rewrite A, app_length; lia).
+          destruct (I Len0) as [G1 [G2 G3]]. rewrite A in G1, G2, G3. rewrite app_length in G1.
+          assert (Hs : s = pl_serial p + 1) by (apply new_serial_next; lia).
+          split; [rewrite app_length; simpl; lia|]. split.
+          * apply (NoDup_Add (Add_app s a b)). split; [exact G2|]. intros K. specialize (G3 s K). lia.
+          * intros s0 K. apply in_app_or in K. destruct K as [K|[K|K]].
+            -- specialize (G3 s0 (in_or_app _ _ _ (or_introl K))). lia.
+            -- subst s0. lia.
+            -- specialize (G3 s0 (in_or_app _ _ _ (or_intror K))). lia.
+        + (* another pool numbers it *)
+          unfold pserial_inv; simpl. rewrite ev_update_ids. split; [exact ND|].
+          rewrite (ev_update_pserials_same pi (w_events w) x _)
+            by (first [simpl; rewrite Idx; exact L | simpl; apply ps_lookup_snoc_other; exact NE]).
+          rewrite upd_other by exact NE. exact I. }
+    destruct (ei_serial x); destruct (ps_lookup (ei_pserials x) q) eqn:PS;
+      destruct (pl_bufsize p <=? Z.of_nat (length (pl_buffer p))); destruct (pl_buffer p); simpl;
+      match goal with |- pserial_inv pi (mkW (upd _ _ (mkPool _ _ ?bf _ _)) _ ?gs (ev_update _ (mkEI _ _ (Some ?ser) _)) _) =>
+        pose proof (Shape gs ser bf) as Sh; try rewrite PS in Sh; exact Sh end.
+  - unfold pserial_inv in *. simpl. split; [exact ND|].
+    destruct (Nat.eq_dec q pi) as [->|NE].
+    + rewrite (upd_same _ _ _ _ N). rewrite N in I. exact I.
+    + rewrite upd_other by exact NE. exact I.
+  - unfold pserial_inv in *. simpl. split; [exact ND|].
+    destruct (Nat.eq_dec q pi) as [->|NE].
+    + rewrite (upd_same _ _ _ _ N). rewrite N in I. exact I.
+    + rewrite upd_other by exact NE. exact I.
+  - unfold pserial_inv in *. simpl. rewrite pserials_app. simpl. rewrite app_nil_r.
+    split; [|exact I].
+    rewrite map_app. simpl. apply NoDup_snoc; [exact ND|].
+    intros K. apply in_map_iff in K. destruct K as [y [Ey Iy]].
+    clear -FR Ey Iy. induction (w_events w) as [|z tbl IH]; simpl in *; [contradiction|].
+    destruct (ei_id z =? e) eqn:E; [discriminate|].
+    destruct Iy as [->|Iy]; [lia | apply IH; assumption].
+Qed.
+
+Lemma pserial_inv_new cfgs maxint gs pi :
+  Forall (fun c => snd c = -1) cfgs -> pserial_inv pi (new_world (map pool_of_cfg cfgs) maxint gs).
+Proof.
+  intros F. unfold pserial_inv, new_world; simpl. split; [constructor|].
+  destruct (nth_error (map pool_of_cfg cfgs) pi) as [p|] eqn:N; [|exact I].
+  intros _. apply nth_error_In in N. apply in_map_iff in N. destruct N as [c [E Ic]].
+  rewrite Forall_forall in F. specialize (F c Ic). destruct c as [[[subs bs] n] ser]. simpl in F. subst ser p.
+  simpl. split; [reflexivity|]. split; [constructor | intros s []].
+Qed.
+
+Theorem poolserial_always (h : handler) (maxdig : Z) cfgs maxint gs ops pi p :
+  Forall (fun c => snd c = -1) cfgs ->
+  let w := fst (wrun h maxdig (new_world (map pool_of_cfg cfgs) maxint gs) ops) in
+  nth_error (w_pools w) pi = Some p ->
+  Z.of_nat (length (pserials pi (w_events w))) <= maxint + 1 ->
+  pl_serial p = Z.of_nat (length (pserials pi (w_events w))) - 1 /\
+  NoDup (pserials pi (w_events w)) /\
+  forall s, In s (pserials pi (w_events w)) -> 0 <= s <= pl_serial p.
+Proof.
+  intros F w N Len.
+  assert (SI : pserial_inv pi w).
+  { eapply (prims_ind_inv (pserial_inv pi) (prim_pserial_inv pi)); [apply wrun_prims | apply pserial_inv_new; exact F]. }
+  assert (M : w_maxint w = maxint) by exact (f_equal snd (static_always h maxdig _ maxint gs ops)).
+  destruct SI as [_ I]. rewrite N, M in I. exact (I Len).
+Qed.
